@@ -12,865 +12,354 @@ Definition show_fres (r : fres) : string :=
   end.
 Definition check (rs : list rune) : string := digest (show_fres (format_res rs)).
 Definition full (rs : list rune) : string := show_fres (format_res rs).
-Eval vm_compute in ("<<<M3519>>>" ++ check (runes_of_ascii "// top
-options
-    // c0
-{ // c1
-StringPrefixLenType // c2
-=
-    // c3
-u8 // c4a
-  // c4b
-; // c5a
-  // c5b
-ArrayPrefixLenType // c6
-= u8 ; // c9
-FixedStringPadFromLeft
-    // c10
-= // c11a
-  // c11b
-true // c12a
-  // c12b
-;
-    // c13
-FixedStringPadChar // c14
-= // c15
-' ' // c16
-; } // c18
-packet
-    // c19
-Logout { // c21a
-  // c21b
-repeat
-    // c22
-string
-    // c23
-Px , repeat // c26a
-  // c26b
-string seqNo , // c29a
-  // c29b
-InMsgkind64 // c30a
-  // c30b
-{ uint16 // c32a
-  // c32b
-OrderId , // c34
-char[]
-    // c35
-count // c36a
-  // c36b
-, repeat // c38
-i32 // c39
-venue // c40a
-  // c40b
-, } ,
-    // c43
-} // c44a
-  // c44b
-packet // c45a
-  // c45b
-Heartbeat
-    // c46
-{ float32 // c48
-tag7 ,
-    // c50
-repeat
-    // c51
-InPrice50 // c52a
-  // c52b
-{
-    // c53
-repeat // c54
-char[ // c55
-5 // c56a
-  // c56b
-] // c57
-lastPx // c58a
-  // c58b
-, // c59
-InRef42
-    // c60
-{
-    // c61
-u8 // c62
-pad0
-    // c63
-, // c64a
-  // c64b
-} ,
-    // c66
-uint32 // c67a
-  // c67b
-Acct , repeat // c70
-Logout
-    // c71
-, repeat char[
-    // c74
-5
-    // c75
-] // c76a
-  // c76b
-Qty // c77
-,
-    // c78
-}
-    // c79
-, // c80a
-  // c80b
-repeat // c81a
-  // c81b
-InSeqno30 {
-    // c83
-repeat // c84a
-  // c84b
-Logout
-    // c85
-,
-    // c86
-} // c87a
-  // c87b
-, // c88a
-  // c88b
-@leftPad
-    // c89
-( '0' ) char[ 12
-    // c94
-] Acct // c96
-, // c97a
-  // c97b
-char[]
-    // c98
-Side2
-    // c99
-, repeat // c101
-string msgKind
-    // c103
-, } // c105
-packet Ack { // c108a
-  // c108b
-Heartbeat
-    // c109
-,
-    // c110
-char[ // c111a
-  // c111b
-8
-    // c112
-] seqNo // c114a
-  // c114b
-, // c115
-float64
-    // c116
-clOrdID // c117
-, // c118a
-  // c118b
-} // c119a
-  // c119b
-packet Trade { // c122
-char[] OrderId // c124
-, f64
-    // c126
-Side2 // c127a
-  // c127b
-, zchar[ // c129a
-  // c129b
-8 ] // c131a
-  // c131b
-f1 // c132
-, string // c134
-Qty // c135
-, float64
-    // c137
-seqNo
-    // c138
-, // c139
-repeat // c140a
-  // c140b
-Logout // c141a
-  // c141b
-, // c142
-} // c143a
-  // c143b
-packet // c144a
-  // c144b
-Order
-    // c145
-{ // c146a
-  // c146b
-f32
-    // c147
-OrderId
-    // c148
-, repeat // c150
-u8 // c151
-x // c152
-, Ack , zchar[ // c156a
-  // c156b
-7 ]
-    // c158
-Note // c159
-, } root
-    // c162
-packet
-    // c163
-Logon // c164a
-  // c164b
-{
-    // c165
-@rightPad // c166a
-  // c166b
-( '\x00' ) // c169
-char[ 9
-    // c171
-] f1 , // c174a
-  // c174b
-} // c175
-")).
-Eval vm_compute in ("<<<M1268>>>" ++ check (runes_of_ascii "options { Logon = ""abc""
-    ;options1
-=  0
-;
-len ='0' ; tag = float64;
-}packet options1 { @lengthOf( Header) int16 BodyLength , //
-@tag(
-7 ) @calculatedFrom( """ ++ [233]%N ++ runes_of_ascii "t" ++ [233]%N ++ runes_of_ascii """ ) @lengthOf(
-    //	t
-    i8i8 ) char[3 ]
-// " ++ [27880; 37322]%N ++ runes_of_ascii "
-//x
-tag `// not a comment`  , match
-    // trailing space 
-    body  as f32a { 3
-    :As } ,
-@lengthOf( a1
-    )	zchar[
-00 ] pack @calculatedFrom( ""x y""
-    ) , @lengthOf(
-// packet A { u8 x, }
-/// triple
-msg_type ) @calculatedFrom(
-    ""a	b"") @calculatedFrom( """ ++ [128512]%N ++ runes_of_ascii """  )
-    repeatCount
-{
-    char[]//	t
-string_
-,
-    match
-x as repeatCount { 10 // " ++ [128512]%N ++ runes_of_ascii " emoji
-:a1 ,
-    65535
-    // packet A { u8 x, }
-    : // c
-u8x , 10: T  ,""// no comment"" : i8i8
-, 3:lengthOf , 0: chars	, } , match x
-as pack	{ 7:Foo	1 :msg_type ,
-0123456789 :
-    o,	007	:	MetaDataX ""1"" :falsey ,
-    }
-,	repeat
-    int8
-    Header`say ""hi""` ,  } ,
-    BodyLength @calculatedFrom( """ ++ [28040; 24687]%N ++ runes_of_ascii """
-    ) /// triple
-, //x
-lengthOf`crlf
-line` , @lengthOf( matchKey ) @calculatedFrom( ""a	b""
-)@tag(0  )
-    repeat
-    MetaDataX // packet A { u8 x, }
-{ //
-stringy string_ ,
-    Packet @lengthOf( // " ++ [128512]%N ++ runes_of_ascii " emoji
-rootA ) ,} , @lengthOf( a1	) repeat chars {
-metadata
-// " ++ [128512]%N ++ runes_of_ascii " emoji
-//	t
-@lengthOf(	calculatedFrom
-// c
-// trailing space 
-)
-    `say ""hi""` ,
-    options1@lengthOf( charz  )  `line1
-line2` ,
-repeat
-MetaDataX{ repeat uint8
-falsey ,  zchar[
-0123456789 ]
-rootA @calculatedFrom( """ ++ [128512]%N ++ runes_of_ascii """
-    )
-    `say ""hi""`
-, }
-    ,} //	t
-, } MetaData charz /// triple
-{ uint32
-_x , matchKey float
-,  stringy a1 ,
-}packet
-Header { } packet	T
-    {
-    @tag(
-    7 )
-//x
-// trailing space 
-zchar[ 00	]
-    falsey
-`it's`, char[] MetaDataX ,
-BodyLength
-    { packetx// " ++ [27880; 37322]%N ++ runes_of_ascii "
-int ,} ,@lengthOf(  Header
-    ) A , charz@lengthOf(	x_y_z ), int64
-charz, // " ++ [128512]%N ++ runes_of_ascii " emoji
-repeat
-    //
-    int64
-leftPad,@tag( 7)@calculatedFrom( ""{,}"" )
-pack
-    // trailing space 
-    ,
-}")).
-Eval vm_compute in ("<<<M4052>>>" ++ check (runes_of_ascii "
+Eval vm_compute in ("<<<M1990>>>" ++ check (runes_of_ascii "// top
+    options 
+	// c0
+	{ 	 // c1
+	StringPrefixLenType  // c2a
+    // c2b
+	= // c3
+u16 ; 
+// c5
+ArrayPrefixLenType	// c6a
 
-  packet  //x
-	Logon{ @tag(
-    255) match
+// c6b
+  	=	// c7a
+    	// c7b
 
-    roots 
-as	u128
-{ ""`tick`""  //x
-		:
+	u32	// c8
+		; 
+FixedStringPadFromLeft 	 // c10a
 
-    matchKey
-    ,1
+  // c10b
+    = 	 // c11
 
-:  Foo}
-,
+false 
+// c12
+;	// c13a
+// c13b
+	FixedStringPadChar  // c14a
+// c14b
+=  // c15
+'0'
 
-@tag(
-65535 )
+// c16
+; // c17
+    	} 
+	// c18
+	packet  Logout 
+// c20
+  	{ 	 // c21
 
-@lengthOf( charz)
+	f64 
+f1// c23a
+	// c23b
+, // c24
+i16
+// c25
+  	Note// c26
+  , 	 // c27
+    @rightPad	(// c29
+  '\x00'	// c30
+		) char[	// c32
+  11 	 // c33
+	]// c34a
+    	// c34b
+    	Flags  // c35a
+// c35b
 
-    @calculatedFrom(""// no comment"") 
-i8	trueish
-
-, float32
-    o 
-@lengthOf( i8i8 ) , 
-@rightPad (
-' ' 
-)
-
-    u8x
-    `two words`,
-repeat	u64
-i8i8	,
-
-    match
-	zchar
-
-    as x_y_z
-
-    {  """ ++ [128512]%N ++ runes_of_ascii """ 
-: charz	, } 	 // @lengthOf(
-    	,
-
-@lengthOf( repeatCount )  // " ++ [128512]%N ++ runes_of_ascii " emoji
-
-u32 
-falsey
-`// not a comment`
-
-    ,	}
-
-    options  // @lengthOf(
-{	// " ++ [128512]%N ++ runes_of_ascii " emoji
-  falsey
-	=	""" ++ [128512]%N ++ runes_of_ascii """
-;
-packetx
-
-    =
-
-""" ++ [233]%N ++ runes_of_ascii "t" ++ [233]%N ++ runes_of_ascii """
-    // @lengthOf(
-      // @lengthOf(
-	u128// " ++ [128512]%N ++ runes_of_ascii " emoji
-    =  """";options1 =	true
-
-    ; // packet A { u8 x, }
-  }options
-{float	=
-""a	b""
-	; packetx  =	// `tick` ""quote"" 'q'
-    	true	calculatedFrom
-    =
-	u64; Packet=
-'\x00' ;
-BodyLength =
-false  //	t
-	; }MetaData falsey{ 	 // " ++ [27880; 37322]%N ++ runes_of_ascii "
-	BodyLength Logon `line1
-line2` ,
-
-zchar	chars
-    `a\`
-, repeatCount  
-  // " ++ [27880; 37322]%N ++ runes_of_ascii "
-
-// `tick` ""quote"" 'q'
-    	BodyLength
-	,
-zchar
-    i8i8 
-,
-}packet	packetx
-{
-
-    repeat	int8
-Logon , @calculatedFrom(
-
-""abc"" ) 
-match
-
-    Logon
-
-    as
-BodyLength {65535  /// triple
-:pack  ,// a // b
-  [ ""CRC32""
-    ,	""it's"" ,  4294967296,""CRC32"",
-""a\\"" , ""`tick`"" , 255 ,	007
-]
-	// packet A { u8 x, }
-
-  :
-    matchKey
-    ,
-    [
-255
-
-]
-
-    :	falsey ,	}
-
-    ,
-	repeat Packet	// c
-    `tab	here`
 , 
-@lengthOf(
+    // c36
+} 	 // c37
+    packet 	 // c38
+      Cancel 	 // c39a
+	// c39b
+  	{ 	 // c40
+  float64
+    // c41
+	  msgKind , 
+      // c43
+    } // c44
+	packet 
+// c45
+      Reject	// c46a
 
-    charz)
-	zchar[
+  // c46b
+      { 	 // c47
 
-    42  ] tag
+InQty43 	 // c48a
+    // c48b
+		{// c49
 
-@calculatedFrom(	""// no comment""
-) `
-`,
+  float32 // c50a
 
-    uint64//	t
-      u8x
-`" ++ [28040; 24687; 31867; 22411]%N ++ runes_of_ascii "` 
-, }
-")).
-Eval vm_compute in ("<<<M4297>>>" ++ check (runes_of_ascii "
+  // c50b
+		sym	// c51
+	, // c52
 
-  options {
-    StringPrefixLenType	= 
-u16
-	;
-ArrayPrefixLenType  = 
-u16;}packet
-SampleBinary {
-	uint16 
-MsgType
+  char[	// c53a
+	// c53b
 
-    `" ++ [28040; 24687; 31867; 22411]%N ++ runes_of_ascii "`
-,
+	10
+	// c54
+    ] 
+    // c55
+Tail // c56
+    , // c57a
+    // c57b
+    	uint8  // c58
+venue// c59a
 
-u16
-BodyLenght 
-@lengthOf( 
-Body) `" ++ [28040; 24687; 20307; 38271; 24230]%N ++ runes_of_ascii "`	, 
-match
-MsgType
-as 
-Body 
-{
-    1
+// c59b
+    ,  // c60
+	uint16
+	    // c61
+		f1 , 
+    // c63
 
-    : 
-Logon
-
-    ,	2 :  Logout
-    ,3:Heartbeat,
-4 :
-RiskControlRequest,  5
-
-:
-
-RiskControlResponse ,
-	}
-, @calculatedFrom(
-""CRC32"")  u32 Ckecksum
-	`" ++ [26657; 39564; 21644]%N ++ runes_of_ascii "`
-    ,
-}
-
-    packet
-
-Logon
-
-{ @leftPad
-(	'0') char[ 10 ]
-	UserName `" ++ [29992; 25143; 21517]%N ++ runes_of_ascii "`	, string Password`" ++ [23494; 30721]%N ++ runes_of_ascii "` ,
-    uint64
-	ClientId
-
-`" ++ [23458; 25143; 31471]%N ++ runes_of_ascii "ID` 
-,
-    u16	HeartbeatInterval 
-`" ++ [24515; 36339; 38388; 38548]%N ++ runes_of_ascii "` ,
-
-    }  packet
-Logout  { 
-@rightPad
-
-    (
-	'0')
-    char[
-10
-
-]
-
-UserName  `" ++ [29992; 25143; 21517]%N ++ runes_of_ascii "`
-
-,uint64
-	ClientId
-`" ++ [23458; 25143; 31471]%N ++ runes_of_ascii "ID` , 
-}packet
-    Heartbeat
-    {  }
-	packet
-
-RiskControlRequest
-
-    {	string
-    UniqueOrderId `" ++ [21807; 19968; 35746; 21333; 21495]%N ++ runes_of_ascii "`
-
-,
 char[
-16  ]  ClOrdID	`" ++ [23458; 25143; 35746; 21333; 21495]%N ++ runes_of_ascii "`
-	,
-char[
-3 ] MarketID
 
-`" ++ [24066; 22330]%N ++ runes_of_ascii "id`
+    9
 
-,
-	char[ 12 ] SecurityID
-
-`" ++ [35777; 21048; 20195; 30721]%N ++ runes_of_ascii "`
-	, char
-	Side
-
-    `" ++ [20080; 21334; 26041; 21521]%N ++ runes_of_ascii "`
-
-    ,
-
-    char
-	OrderType `" ++ [35746; 21333; 31867; 22411]%N ++ runes_of_ascii "` ,  u64  Price 
-`" ++ [20215; 26684]%N ++ runes_of_ascii "`,
-u32 Qty 
-`" ++ [25968; 37327]%N ++ runes_of_ascii "` ,repeat
-    string
-    ExtraInfo	`" ++ [38468; 21152; 20449; 24687]%N ++ runes_of_ascii "`
-    ,repeat SubOrder
-{  char[16 ]
-ClOrdID
-    `" ++ [23376; 35746; 21333; 21495]%N ++ runes_of_ascii "` ,
-
-    u64
-
-Price 
-`" ++ [23376; 35746; 21333; 20215; 26684]%N ++ runes_of_ascii "` 
-,
-
-u32 Qty`" ++ [23376; 35746; 21333; 25968; 37327]%N ++ runes_of_ascii "` ,
-}  , }packet
-RiskControlResponse
-
-{ 
-string UniqueOrderId  `" ++ [21807; 19968; 35746; 21333; 21495]%N ++ runes_of_ascii "`
-    ,i32
-
-Status	`" ++ [29366; 24577]%N ++ runes_of_ascii "` ,string 
-Msg
-`" ++ [32467; 26524; 20449; 24687]%N ++ runes_of_ascii "`
-,repeat  Detail,
-
-}
-packet
-Detail
-
-    {
-	string RuleName `" ++ [35268; 21017; 21517; 31216]%N ++ runes_of_ascii "`  ,u16
-	Code  `" ++ [21407; 22240; 20195; 30721]%N ++ runes_of_ascii "`  ,  }
-")).
-Eval vm_compute in ("<<<M281>>>" ++ check (runes_of_ascii "// @lengthOf(
-root packet  leftPad{ match Logon as	msg_type { ""it's"" :
-    int , """ ++ [128512]%N ++ runes_of_ascii """
-    :charz ""a\\""
-: options1 , } , @rightPad(
-    ' ') asx `doc`
-, @leftPad( '0' ) uint32 charz, @tag(
-255 ) zchar[ 10 ]Pad ``
-, string  asx	`it's` , }
-packet
-// packet A { u8 x, }
-// trailing space 
-Pad {@lengthOf(lengthOf )
-@lengthOf( crc  )u8x
-    `a\` ,
-float64 f32a  @calculatedFrom(
-""a\""b""
-    ) `it's`  ,@lengthOf(	options1 ) @tag( 42 )@calculatedFrom(
-// a // b
-//x
-""1""	) zchar[ 7 ] repeatCount	`say ""hi""` , @calculatedFrom( ""// no comment"" )
-    //x
-    zchar[ 3] i8i8 @calculatedFrom(
-""// no comment"" ) `" ++ [233]%N ++ runes_of_ascii "`,@tag( //
-65535 )
-    match o
-    as float
-    { [ // @lengthOf(
-10 ]
-    :len } ,@tag(3//x
-)
-match repeatCount as Pad {
-    [ ""// no comment"",
-42 , ""\n""
-,
-    007 , 3
-    , ""// no comment""
-    // c
     ]
-:
-    calculatedFrom}
-    , u8x
-{ repeat
-    string x `it's` ,	x @calculatedFrom( """ ++ [128512]%N ++ runes_of_ascii """
-)//
-, falsey
-    { match	f32a as// c
-u128 { [ ""it's""
-    //x
-    ,
-    0123456789
-    , 0, """ ++ [233]%N ++ runes_of_ascii "t" ++ [233]%N ++ runes_of_ascii """ ,42 , 65535 // c
-,
-1 , 255 ] :
-    uint8x ,
-0 :asx ,} , repeat packetx u `{ , }` , string Foo	, x @calculatedFrom(
-""a	b"")//	t
-,
-} , o
-    pack
-    , }  , // a // b
-} packet i64_ { repeat
-char[ 3 ]
-a1
-,} options
-    // a // b
-    {	}")).
-Eval vm_compute in ("<<<M450>>>" ++ check (runes_of_ascii "
-packet BodyLength
-{ match As as
-x
-    {	[	""a	b""
-, ""it's"" , 0	] // trailing space 
-: float , 42
-:u128 , ""a\\"":
-    BodyLength	0 :  Packet
-//	t
-//
-""\" ++ [233]%N ++ runes_of_ascii """
-:
-    // " ++ [128512]%N ++ runes_of_ascii " emoji
-    roots	""\n""	: string_ }
-    // @lengthOf(
-    , msg_type	{ char[
-4294967296 ] options1 // " ++ [27880; 37322]%N ++ runes_of_ascii "
-, } , i8i8{ i64_ { match
-    A	as zchar
+	Acct
+	// c67
+	, // c68
+    }  , // c70
+		}	// c71a
+// c71b
+    packet Trade 
+// c73
+{ // c74
+char[]  // c75a
+  // c75b
+	  x
+    ,// c77a
+    	// c77b
+	zchar[	// c78
+  6]  // c80
+
+  Note
+
+,// c82a
+// c82b
+repeat 	 // c83a
+	// c83b
+Reject	// c84a
+	// c84b
+	,
+	}  root
+
+    // c87
+	packet 
+
+// c88
+    Order // c89a
+	// c89b
+    {	// c90a
+  // c90b
+
+	Cancel ,
+	Logout 	 // c93
+
+,	// c94a
+
+// c94b
+      u64 // c95
+  Acct  // c96
+	,
+u32// c98a
+	// c98b
+	OrderId
+// c99
+
+, match	// c101
+
+OrderId// c102a
+		// c102b
+
+  as 	 // c103
+  Body  // c104a
+// c104b
     {
-[
-65535 ,
-""" ++ [128512]%N ++ runes_of_ascii """
-// a // b
-// `tick` ""quote"" 'q'
-, ""`tick`"" , ""x y"",""a\""b"" ,	0 , """ ++ [128512]%N ++ runes_of_ascii """ ,
-42 ] : float ""a	b""
-:	Pad 007	: repeatCount
-,// " ++ [128512]%N ++ runes_of_ascii " emoji
-}	,
-    //
-    uint64 Z9_ `" ++ [233]%N ++ runes_of_ascii "` ,crc ,} , /// triple
-repeat char[ 255 ] uint8x , uint32 pack @calculatedFrom( ""{,}""	)
-    , }
+	[ 	 // c106
+  127 // c107
+	, 	 // c108a
+    	// c108b
+
+70
+    // c109
+	]
+: 	 // c111a
+// c111b
+	Reject
+    // c112
+
+,177  // c114a
+// c114b
+		:	// c115
+  Trade
 ,
-@calculatedFrom( ""a	b"" // `tick` ""quote"" 'q'
-)
-    tag
-@lengthOf( Packet )	`" ++ [233]%N ++ runes_of_ascii "`
-//
+
+    // c117
+      58 
+      // c118
+      :  // c119a
+// c119b
+  Logout
+,	75 // c122
+:
+	    // c123
+  	Cancel  // c124a
+    	// c124b
+    , 
+// c125
+
+} 
+  // c126
+	  ,u32// c128a
+  // c128b
+	Tail
+// c129
+  @calculatedFrom(
+	    // c130
+  ""CRC32"" 	 // c131
+
+	) 	 // c132a
+	// c132b
+, 	 // c133
+    }	// c134")).
+Eval vm_compute in ("<<<M25>>>" ++ check (runes_of_ascii "root
+    packet u128{pack @lengthOf(MetaDataX)	`say ""hi""` ,repeat lengthOf {
+    int8 o
+    `crlf
+line` ,
+    } // " ++ [27880; 37322]%N ++ runes_of_ascii "
+, @lengthOf( tag
+    ) char[
+    007
+    ] chars @lengthOf(MetaDataX ) , u
+    @calculatedFrom( ""\n"" )// `tick` ""quote"" 'q'
+, @lengthOf(  Z9_
+    ) u32 A
+@lengthOf( charz ) ,u16 float@lengthOf(
+    As ) ,A u128
 // packet A { u8 x, }
-, }
-root
-packet// c
-lengthOf
-    // @lengthOf(
-    { i32 x ,
-match i64_ as Logon
-    // trailing space 
-    {3 : rootA,[//x
-4294967296]:Packet, [ ""a	b"" ,
-    ""{,}""] :
-calculatedFrom ,[  """ ++ [28040; 24687]%N ++ runes_of_ascii """ , 0123456789 ,
-""a	b"" , 42 , 255 ,
-""\" ++ [233]%N ++ runes_of_ascii """ ]	:msg_type
-    ,  } // `tick` ""quote"" 'q'
-, @lengthOf(Header)	repeat  float {
-    string asx
-    , }  ,match	string_ // " ++ [128512]%N ++ runes_of_ascii " emoji
-as u {""" ++ [233]%N ++ runes_of_ascii "t" ++ [233]%N ++ runes_of_ascii """:  uint8x	} ,
-    } packet _x // trailing space 
-{
-char[] _x`` , }
-")).
-Eval vm_compute in ("<<<M1141>>>" ++ check (runes_of_ascii "// @lengthOf(
-packet
-// @lengthOf(
-//
-chars { repeat leftPad {
-i64_, /// triple
-}  , BodyLength{ //	t
-char[ 1] _x
-    `line1
-line2`
-    , }
-    ,@calculatedFrom( """ ++ [233]%N ++ runes_of_ascii "t" ++ [233]%N ++ runes_of_ascii """
-) repeat
-    zchar body , char[ 65535	] Foo ,repeat
-    zchar[ 7	] repeatCount , @lengthOf( Logon
-)@calculatedFrom(	""{,}""
-/// triple
-// `tick` ""quote"" 'q'
-)//
-string//x
-float,
-u8x,
-    uint8x
-@calculatedFrom( ""packet"") , } //x
-MetaData T { u16 zchar // " ++ [128512]%N ++ runes_of_ascii " emoji
-`tab	here`
-,float64 x
-,// packet A { u8 x, }
-i32 Packet `` , // `tick` ""quote"" 'q'
-zchar[
-255
-//
-/// triple
-] crc
-    // a // b
-    , calculatedFrom
+// packet A { u8 x, }
+`a\` /// triple
+, x_y_z@lengthOf(stringy  )
+`a\` ,
+}
+    root packet x_y_z
+    {@lengthOf( crc	)  i64 pack // " ++ [27880; 37322]%N ++ runes_of_ascii "
+@lengthOf(
+    float ) `say ""hi""`
+, }MetaData  uint8x{ }
+    root packet  trueish {  zchar[ 4294967296  ] float@lengthOf( matchKey
+    )/// triple
+,@lengthOf( o
+    ) repeat float rootA
+    , @tag(  7	) int64 // " ++ [128512]%N ++ runes_of_ascii " emoji
+falsey@lengthOf( options1 ) ,Logon// @lengthOf(
+{ tag
+@lengthOf(a1 ) , asx `// not a comment` , float32 zchar
+    ,Pad @calculatedFrom( ""`tick`"" )// @lengthOf(
+,
+    } , // trailing space 
+@lengthOf( int
+    ) repeat // a // b
+rootA// trailing space 
 u128 ,
-zchar[ 1
-/// triple
-// a // b
-]
-metadata `
-`
+    repeat char[] leftPad , int8 _x // a // b
 ,
-} packet uint8x	{
-Header{uint16  metadata @lengthOf(
-MetaDataX
-    ) `line1
-line2` , } //x
-,
-// " ++ [27880; 37322]%N ++ runes_of_ascii "
-// @lengthOf(
-metadata  repeatCount , repeat x_y_z , chars
-A
-, packetx@calculatedFrom(
-    // a // b
-    ""a\\""	) `` ,
-    char[ 007] a1 @lengthOf( A  ) `" ++ [28040; 24687; 31867; 22411]%N ++ runes_of_ascii "`, /// triple
-} options {
-    matchKey = float32 ;	}
-packet
-    f32a
-{ @lengthOf( repeatCount )// @lengthOf(
-@tag( 42 )// `tick` ""quote"" 'q'
-float32 u128 ,  }
+    Packet `` ,
+    // " ++ [27880; 37322]%N ++ runes_of_ascii "
+    match
+len	as uint8x { ""a	b""
+:
+lengthOf
+,""\" ++ [233]%N ++ runes_of_ascii """ :pack
+[ // a // b
+""x y""  ,""packet""
+, """ ++ [128512]%N ++ runes_of_ascii """
+    // " ++ [27880; 37322]%N ++ runes_of_ascii "
+    ,	""\" ++ [233]%N ++ runes_of_ascii """ , 255 , ""{,}""
+    ]:
+lengthOf
+    , [ ""abc"", 00  ,
+    ""a\\"" , ""// no comment""
+, 00 , 007, 0 , ""packet""]: Packet  }
+    // " ++ [27880; 37322]%N ++ runes_of_ascii "
+    , @leftPad()
+    u i64_ ,
+}
+packet trueish { }
 ")).
-Eval vm_compute in ("<<<M248>>>" ++ check (runes_of_ascii "packet
-Packet
-    {
-} packet repeatCount{@tag(	4294967296
-    ) @lengthOf(A  ) @lengthOf( float ) rootA ,
-@tag(0123456789  )
-Header
-    `// not a comment`,  matchKey
-    f32a
-    , Pad, repeat float32	uint8x
-    `" ++ [233]%N ++ runes_of_ascii "` ,@leftPad
-    ('\x00' )	repeat
-    char[3]
-tag `
-`, repeat
-pack {
-repeat x { repeat f64 len ,
-    i64_ len, }
-    ,
-repeatCount
-    // `tick` ""quote"" 'q'
-    @lengthOf(uint8x
-    ) , match	zchar  as a1 {
-// a // b
-// packet A { u8 x, }
-3: u ,
-},// packet A { u8 x, }
-repeat rootA
-{ options1 {
-repeat body u8x `crlf
-line`	, match Z9_ as
-    f32a{007
-:repeatCount ,
-    ""packet""
-: calculatedFrom
-    ,
-    // " ++ [128512]%N ++ runes_of_ascii " emoji
-    10 // `tick` ""quote"" 'q'
-: /// triple
-calculatedFrom
-    ,
-""CRC32""  :	_x , [	""x y""	] : i64_ , ""packet""
-// `tick` ""quote"" 'q'
-// a // b
-:// `tick` ""quote"" 'q'
-MetaDataX
-    ,  }
-// a // b
-// " ++ [27880; 37322]%N ++ runes_of_ascii "
-, } ,
-    //x
-    } , } ,  } MetaData// @lengthOf(
-asx {	u trueish ,chars // c
-f32a `// not a comment`	, float64 u128 , string_ string_ `
-` , }packet crc
-{ }")).
-Eval vm_compute in ("<<<M3896>>>" ++ check (runes_of_ascii "packet As {
+Eval vm_compute in ("<<<M383>>>" ++ check (runes_of_ascii "options {
+	StringPrefixLenType = u16;
+	ArrayPrefixLenType = u16;
+}
+
+packet SampleBinary {
+	uint16 MsgType `" ++ [28040; 24687; 31867; 22411]%N ++ runes_of_ascii "`,
+	u16 BodyLenght @lengthOf(Body) `" ++ [28040; 24687; 20307; 38271; 24230]%N ++ runes_of_ascii "`,
+	match MsgType as Body {
+		1 : Logon,
+		2 : Logout,
+		3 : Heartbeat,
+		4 : RiskControlRequest,
+		5 : RiskControlResponse,
+	},
+	@calculatedFrom(""CRC32"")
+	u32 Ckecksum `" ++ [26657; 39564; 21644]%N ++ runes_of_ascii "`,
+}
+
+packet Logon {
+	@leftPad('0')
+	char[10] UserName `" ++ [29992; 25143; 21517]%N ++ runes_of_ascii "`,
+	string Password `" ++ [23494; 30721]%N ++ runes_of_ascii "`,
+	uint64 ClientId `" ++ [23458; 25143; 31471]%N ++ runes_of_ascii "ID`,
+	u16 HeartbeatInterval `" ++ [24515; 36339; 38388; 38548]%N ++ runes_of_ascii "`,
+}
+
+packet Logout {
+	@rightPad('0')
+	char[10] UserName `" ++ [29992; 25143; 21517]%N ++ runes_of_ascii "`,
+	uint64 ClientId `" ++ [23458; 25143; 31471]%N ++ runes_of_ascii "ID`,
+}
+
+packet Heartbeat {
+}
+
+packet RiskControlRequest {
+	string UniqueOrderId `" ++ [21807; 19968; 35746; 21333; 21495]%N ++ runes_of_ascii "`,
+	char[16] ClOrdID `" ++ [23458; 25143; 35746; 21333; 21495]%N ++ runes_of_ascii "`,
+	char[3] MarketID `" ++ [24066; 22330]%N ++ runes_of_ascii "id`,
+	char[12] SecurityID `" ++ [35777; 21048; 20195; 30721]%N ++ runes_of_ascii "`,
+	char Side `" ++ [20080; 21334; 26041; 21521]%N ++ runes_of_ascii "`,
+	char OrderType `" ++ [35746; 21333; 31867; 22411]%N ++ runes_of_ascii "`,
+	u64 Price `" ++ [20215; 26684]%N ++ runes_of_ascii "`,
+	u32 Qty `" ++ [25968; 37327]%N ++ runes_of_ascii "`,
+	repeat string ExtraInfo `" ++ [38468; 21152; 20449; 24687]%N ++ runes_of_ascii "`,
+	repeat SubOrder {
+		char[16] ClOrdID `" ++ [23376; 35746; 21333; 21495]%N ++ runes_of_ascii "`,
+		u64 Price `" ++ [23376; 35746; 21333; 20215; 26684]%N ++ runes_of_ascii "`,
+		u32 Qty `" ++ [23376; 35746; 21333; 25968; 37327]%N ++ runes_of_ascii "`,
+	},
+}
+
+packet RiskControlResponse {
+	string UniqueOrderId `" ++ [21807; 19968; 35746; 21333; 21495]%N ++ runes_of_ascii "`,
+	i32 Status `" ++ [29366; 24577]%N ++ runes_of_ascii "`,
+	string Msg `" ++ [32467; 26524; 20449; 24687]%N ++ runes_of_ascii "`,
+	repeat Detail,
+}
+
+packet Detail {
+	string RuleName `" ++ [35268; 21017; 21517; 31216]%N ++ runes_of_ascii "`,
+	u16 Code `" ++ [21407; 22240; 20195; 30721]%N ++ runes_of_ascii "`,
+}")).
+Eval vm_compute in ("<<<M2007>>>" ++ check (runes_of_ascii "packet As {
     @lengthOf(u8x)
     repeat u32 T,
     string Foo @calculatedFrom(""it's"") `doc`,
@@ -916,1638 +405,902 @@ options {
     MetaDataX = true;//x
     charz = true;
 }")).
-Eval vm_compute in ("<<<M3933>>>" ++ check (runes_of_ascii "
-root	packet
+Eval vm_compute in ("<<<M1917>>>" ++ check (runes_of_ascii "packet
 
-As
-{@tag(
-    4294967296
-)packetx // packet A { u8 x, }
-  	,
-@calculatedFrom(
-""" ++ [128512]%N ++ runes_of_ascii """
-    )i32
+Packet {
+zchar[ 	 /// triple
+    00
+    ]  u @lengthOf(tag ) , repeat 	 // " ++ [128512]%N ++ runes_of_ascii " emoji
 
-crc // " ++ [128512]%N ++ runes_of_ascii " emoji
+string
+	u8x`u8 x,` ,
+    packetx  { 
+repeat uint8
+	leftPad
 
-  ,
-	@lengthOf(x_y_z )
-	@lengthOf( 
-  // a // b
-	body 
-      // a // b
-  // c
-  	)BodyLength {	match
+`doc`, 
+}
+, // " ++ [27880; 37322]%N ++ runes_of_ascii "
+	@tag( 0123456789)
+	char[]
 
-    repeatCount	as 
-int	{ 
-""\" ++ [233]%N ++ runes_of_ascii """ :body
-	,// packet A { u8 x, }
-    ""// no comment""
+    chars  @lengthOf(	rootA
 
-: 
-falsey ,""abc"" 
-: 
-tag
-""a	b""	:  zchar
-    , 
-	    // trailing space 
-  007 :
-Packet
+    // trailing space 
+
+	// c
+    ) 
+`{ , }`, uint8 Packet  ,
+	repeat	a1
+    `two words`
+    //
+  //
+  ,	@calculatedFrom( 
+    //	t
+
+  ""it's""
+	) string_  {u16	A 
+// packet A { u8 x, }
+  	// a // b
+
+`crlf
+line`,
+repeat
+
+string 	 // " ++ [27880; 37322]%N ++ runes_of_ascii "
+	uint8x, string
+    u128
+,	} 
 ,
-}  ,	// " ++ [128512]%N ++ runes_of_ascii " emoji
-    },
+    }
+	packet MetaDataX { 
 
-    repeat falsey trueish ,  @leftPad
-(  ' '	)@lengthOf( 	 // packet A { u8 x, }
-    Logon )
-	@leftPad
-    (  )
+//x
+    	@tag(
+0123456789	)  char[ // packet A { u8 x, }
+  3
+    ]	Packet ,
 
-int  @lengthOf( u8x
-	), zchar[
+}
+MetaData
+repeatCount  {
 
-// " ++ [27880; 37322]%N ++ runes_of_ascii "
-  // packet A { u8 x, }
-007 ]
+    } root
+packet
+    u8x 
+	    // `tick` ""quote"" 'q'
+  {
+    x_y_z // " ++ [27880; 37322]%N ++ runes_of_ascii "
 
-falsey
-	,
-@rightPad
-(
-) 
-float
-@lengthOf(
-	Logon
+@lengthOf( 
+    // a // b
+o
 
-) , @rightPad	(
-'\x00' )
-	@calculatedFrom( /// triple
+    ) `two words` ,  // " ++ [27880; 37322]%N ++ runes_of_ascii "
 
-	""a	b"")
+  repeat	zchar[0123456789
+    ]
 
-    Z9_ u8x ,
-@tag( 3 )string_ u128 , 
-}options 
-{	u128  = ""it's"" ;
-metadata
+    len`" ++ [233]%N ++ runes_of_ascii "`
 
-    =
-""abc""string_
-	= true
+, } 
+	//
+ 
+")).
+Eval vm_compute in ("<<<M1448>>>" ++ check (runes_of_ascii "options  {LittleEndian	=
+	false
+	;StringPrefixLenType
+	= u16	;  ArrayPrefixLenType  =
+    u64
 
     ;
-    f32a 
-=// c
-  true
-
-    }packet
-i8i8 {
-
-}")).
-Eval vm_compute in ("<<<M1107>>>" ++ check (runes_of_ascii "packet falsey
-{
-    // trailing space 
-    @lengthOf(
-_x
-    // @lengthOf(
-    ) @calculatedFrom(
-// packet A { u8 x, }
-//
-""`tick`"" )
-    repeat body
-    //
-    ,
-    i64 packetx , repeat u64 chars
-    // " ++ [128512]%N ++ runes_of_ascii " emoji
-    ,@leftPad
-(// packet A { u8 x, }
-) @calculatedFrom( ""a\""b"")	BodyLength {
-rootA
-    pack
-//
-/// triple
-,//x
-char[1 ]
-uint8x`u8 x,`
-, match Packet
-as
-roots {  ""a	b"" : crc
-    ,}	,  } , int32 MetaDataX , @calculatedFrom(
-    ""// no comment""
-)
-    x
-Z9_ `
-` , }packet
-falsey  {}
-    options
-{ options1 = '\x00'
-;Foo
-//
-// `tick` ""quote"" 'q'
-=false
-; lengthOf
-= """ ++ [28040; 24687]%N ++ runes_of_ascii """A  =
-//	t
-// " ++ [128512]%N ++ runes_of_ascii " emoji
-255
-    ; repeatCount  =
-    """ ++ [233]%N ++ runes_of_ascii "t" ++ [233]%N ++ runes_of_ascii """
-} packet body {
-// `tick` ""quote"" 'q'
-// " ++ [27880; 37322]%N ++ runes_of_ascii "
-@rightPad ( ) repeat u `it's` , char[ 255 //	t
-] charz @lengthOf(
-    x )
-,
-    //
-    zchar[ 3
-]
-chars , zchar@calculatedFrom(
-""`tick`""// `tick` ""quote"" 'q'
-) , }
-")).
-Eval vm_compute in ("<<<M453>>>" ++ check (runes_of_ascii "packet chars{ }	options
-// a // b
-// packet A { u8 x, }
-{	calculatedFrom
-=i8;}
-packet x { @tag( 255
-    ) // `tick` ""quote"" 'q'
-match u8x as leftPad { [
-1 ,
-    ""\n"",""a\""b""]
-    : stringy } ,
-float @calculatedFrom(
-    ""\n"" )
-`
-`
-    ,
-@calculatedFrom( // @lengthOf(
-""{,}""
-) repeat char[ 0123456789
-] Header
-    , body {
-f32a
-    `" ++ [28040; 24687; 31867; 22411]%N ++ runes_of_ascii "`
-, char[
-10 ] Pad
-@lengthOf( packetx )`line1
-line2`
-    , match Header as crc {[ 7] : roots
-,4294967296 : Header , 255:
-    // " ++ [27880; 37322]%N ++ runes_of_ascii "
-    crc,	00
-:
-    Z9_ ,255 :Z9_ ,
-[
-    42 ,
-    255
-    ] : repeatCount
-,	} , leftPad { repeat
-asx  `" ++ [28040; 24687; 31867; 22411]%N ++ runes_of_ascii "` // " ++ [27880; 37322]%N ++ runes_of_ascii "
-, float
-, }, }
-    , @leftPad // a // b
-(
-) @lengthOf(Foo  )@calculatedFrom(  ""abc"" ) uint64 BodyLength , @tag( // " ++ [128512]%N ++ runes_of_ascii " emoji
-65535 ) i64 u8x`it's`
-,	@tag( 0 )/// triple
-crc { zchar[65535 ]u `tab	here` ,	} ,// a // b
+FixedStringPadFromLeft
+	=
+	true	;
+FixedStringPadChar = ' '  ;
 }
-")).
-Eval vm_compute in ("<<<M5>>>" ++ check (runes_of_ascii "root packet // a // b
-chars{
-    u32
-u8x `it's`
-    , A o
-,
-Packet {u/// triple
-`doc` , repeat
-// @lengthOf(
-// " ++ [128512]%N ++ runes_of_ascii " emoji
-Header
-    u8x  ,
-i8i8
-As , } , @calculatedFrom(
-// `tick` ""quote"" 'q'
-// trailing space 
-""a\\"" ) charz
-    { //x
-char[]a1 , //
-string Pad , x repeatCount
-, metadata {
-chars{ body`a\`  , match
-    trueish as lengthOf
-    { 0:u8x
-    , } , match packetx as	string_  {0123456789
-:BodyLength , } , } ,
-repeat calculatedFrom
-    roots
-    ,
+
+packet
+    Logon	{
+
+u16	Tail,
+
 repeat
-Packet
-    ,int32 Logon, }
-    ,// c
-}, repeatCount,
-    @lengthOf( float) match trueish as Header { [ ""{,}"" , ""1""
-]
-    : // " ++ [27880; 37322]%N ++ runes_of_ascii "
-f32a ,} ,	i16 chars
-    , match As  as Pad { 3: f32a , [ 4294967296
-    ] : body,[	""{,}""
-]
-: u8x // `tick` ""quote"" 'q'
-, ""a	b"" :
-    Z9_,
-    // packet A { u8 x, }
-    } ,// " ++ [27880; 37322]%N ++ runes_of_ascii "
-} //x")).
-Eval vm_compute in ("<<<M573>>>" ++ check (runes_of_ascii "packet pack
-    // `tick` ""quote"" 'q'
-    {@lengthOf(
-charz ) repeat
-int64 x_y_z  , @calculatedFrom(  ""abc"" )Z9_ //	t
-{ options1@lengthOf( i64_ ) , string stringy `tab	here` , } , @rightPad ( ) chars	uint8x
-`" ++ [233]%N ++ runes_of_ascii "` ,@tag(1)match
-asx as string_{	00	:
-    Header, [
-// c
-// c
-42, 1 ,
-    ""\" ++ [233]%N ++ runes_of_ascii """ , """ ++ [233]%N ++ runes_of_ascii "t" ++ [233]%N ++ runes_of_ascii """ , 255,
-    """ ++ [128512]%N ++ runes_of_ascii """
-    // " ++ [27880; 37322]%N ++ runes_of_ascii "
-    ] : chars , // trailing space 
-""" ++ [28040; 24687]%N ++ runes_of_ascii """
-:rootA	[ 0123456789 , 4294967296 ,
-""x y""
+
+string x  ,
+	i16
+
+    count
+
+,@leftPad( '0')
+	char[  3 ]
+Note
+	,
+	}	packet
+	Fill
+	{ } packet
+
+    Heartbeat{}packet Reject
+{string 
+msgKind
+,	repeat  Logon 
 ,
-7 ,""\" ++ [233]%N ++ runes_of_ascii """ , 10
-    ,""{,}""
-    ,
-1
-    //
-    ] :lengthOf ,	} ,
-@calculatedFrom(
-    ""packet"" )zchar[
-65535	]Foo
-`two words`,repeat// " ++ [128512]%N ++ runes_of_ascii " emoji
-zchar[// " ++ [128512]%N ++ runes_of_ascii " emoji
-255
-    ] msg_type
-    ,
-@lengthOf(
-rootA) char x // a // b
-@lengthOf( x_y_z )
-, @tag(	255
-) @calculatedFrom( ""{,}""
-) int64 Packet
-// @lengthOf(
-// trailing space 
-`
-` ,
-Foo  , }")).
-Eval vm_compute in ("<<<M962>>>" ++ check (runes_of_ascii "  MetaData
-stringy{ Packet
-    falsey `" ++ [28040; 24687; 31867; 22411]%N ++ runes_of_ascii "`
-, }
-packet Foo
-{@lengthOf(i8i8 ) zchar[ 10 ]
-    chars // a // b
-`{ , }`,	@calculatedFrom( ""1"") char[ 007 // " ++ [27880; 37322]%N ++ runes_of_ascii "
-] x ,@lengthOf(  int
-    )  zchar[10] string_ `two words` , repeat repeatCount { u32
-len // c
-, T
-rootA , char[ 7 ] falsey @lengthOf( crc ),
-// " ++ [128512]%N ++ runes_of_ascii " emoji
-// packet A { u8 x, }
-int16// `tick` ""quote"" 'q'
-BodyLength
-    // a // b
-    , } ,packetx @lengthOf(	u
-// c
-// @lengthOf(
-) ,zchar[
-3 ] chars // c
-, float32
-x_y_z `{ , }` ,@calculatedFrom( ""1"")
-    uint16 trueish@calculatedFrom(""" ++ [128512]%N ++ runes_of_ascii """)
-    `line1
-line2`,
-Z9_ chars	, }root packet crc {	char[]	T ,	}
-MetaData len  { uint16
-uint8x , f64 string_`" ++ [28040; 24687; 31867; 22411]%N ++ runes_of_ascii "` ,
-char[]
-i8i8`// not a comment`
-    ,}")).
-Eval vm_compute in ("<<<M4192>>>" ++ check (runes_of_ascii "packet u {
-    uint64 u8x,
-    @leftPad('0')
-    u16 uint8x @lengthOf(T),
-    @lengthOf(lengthOf)
-    @lengthOf(msg_type)
-    u16 tag @calculatedFrom(""a\""b"") `crlf
-    line`,
-}
 
-packet As {
-    @calculatedFrom(""a\\"")
-    u128 {
-        int16 string_ @lengthOf(Header),
-        repeat i64_ `{ , }`,
-    },/// triple
-}
-
-root packet roots {
-    @calculatedFrom(""`tick`"")
-    i32 Header `" ++ [233]%N ++ runes_of_ascii "`,
-    int8 T,
-    @rightPad(' ')
-    u32 charz `doc`,
-    char[65535] f32a,
-    metadata,
-}
-
-MetaData T {
-    u8x roots `it's`,
-    options1 MetaDataX,
-    int32 f32a,
-}
-
-options {
-    // trailing space 
-    f32a = '0'
-    Pad = 0123456789;
-    repeatCount = char[]
-    x_y_z = '\x00'
-}")).
-Eval vm_compute in ("<<<M3828>>>" ++ check (runes_of_ascii "root packet falsey {
-    @tag(0123456789)
-    @tag(3)
-    Pad {
-        rootA,
-        //x
-        // a // b
-        x {
-            repeat int {
-                // " ++ [128512]%N ++ runes_of_ascii " emoji
-                // @lengthOf(
-                match f32a as crc {
-                    [""" ++ [128512]%N ++ runes_of_ascii """, ""packet""] : metadata,
-                    //	t
-                    [42, ""abc"", 00, ""a\\""] : metadata,
-                    [""a\""b""] : Header,
-                    ""\n"" : asx,
-                },
-            },
-            x_y_z @calculatedFrom(""1""),
-            zchar[42] string_ ``,
-            matchKey pack,
-        },
-    },
-    @lengthOf(Logon)
-    @leftPad('\x00')
-    As u8x,
-}")).
-Eval vm_compute in ("<<<M789>>>" ++ check (runes_of_ascii "packet roots { //	t
-@calculatedFrom( ""packet"" )
-f32 roots
-    @lengthOf( // " ++ [27880; 37322]%N ++ runes_of_ascii "
-options1 ) `tab	here`,	@lengthOf( Foo )
-    match BodyLength
-    as u128
-//
-// `tick` ""quote"" 'q'
-{""" ++ [233]%N ++ runes_of_ascii "t" ++ [233]%N ++ runes_of_ascii """
-:x_y_z
-, 1
-:leftPad /// triple
-,
-[ ""packet"" ] :	crc 007 : uint8x [ ""\n"" , 00
-,
-// @lengthOf(
-// " ++ [128512]%N ++ runes_of_ascii " emoji
-10
-    // `tick` ""quote"" 'q'
-    , // @lengthOf(
-65535 ,
-    42 ,""a\\"" ,00 ]	:
-leftPad ,
-    }	,
-} options { f32a = 4294967296
-;
-// " ++ [27880; 37322]%N ++ runes_of_ascii "
-//	t
-Header	= '0'	} // @lengthOf(
-options { Logon= zchar[ 255] ; // `tick` ""quote"" 'q'
-metadata =
-""it's""; leftPad
-// trailing space 
-// a // b
-=
-""CRC32""// `tick` ""quote"" 'q'
-;
-Pad =
-""""
-; }")).
-Eval vm_compute in ("<<<M1026>>>" ++ check (runes_of_ascii "options // c
+InFlags25 
 {
-msg_type =//	t
-1 ;
-    // a // b
-    _x
-=
-    // packet A { u8 x, }
-    char[]
-; // a // b
-pack = ' ' ; } MetaData
-    i8i8{i8i8 // " ++ [27880; 37322]%N ++ runes_of_ascii "
-roots ,  options1
-    // " ++ [27880; 37322]%N ++ runes_of_ascii "
-    lengthOf, _x
-    Z9_ `// not a comment` ,
-    x i8i8 `{ , }`  , leftPad BodyLength
-    /// triple
-    , } root
-packet tag { zchar[	4294967296]
-// packet A { u8 x, }
-/// triple
-Z9_@calculatedFrom(
-    ""abc"" ) `" ++ [28040; 24687; 31867; 22411]%N ++ runes_of_ascii "`, char
-    BodyLength @calculatedFrom( ""\n"" ) `// not a comment` ,
-    @leftPad // c
-(' ' // c
-) @rightPad (	)
-repeat
-    MetaDataX
-    u
-`" ++ [233]%N ++ runes_of_ascii "`	, } MetaData tag {u64 x_y_z
-`
-` , }
-")).
-Eval vm_compute in ("<<<M1143>>>" ++ check (runes_of_ascii "// " ++ [128512]%N ++ runes_of_ascii " emoji
-packet _x	{
-    }  packet Logon{  repeat
-int64 uint8x ,
-    roots
-{zchar[65535 ]
-float // @lengthOf(
-,i64 MetaDataX
-    , int32 charz , uint32 _x `" ++ [28040; 24687; 31867; 22411]%N ++ runes_of_ascii "` , } ,//x
-string tag
-    @calculatedFrom( ""\" ++ [233]%N ++ runes_of_ascii """ )  ,	repeat char BodyLength , }	packet	zchar
-{
-@calculatedFrom( ""x y"" ) @tag(1	)
-zchar[
-    1	] u ,pack {zchar[ 3 ] packetx @lengthOf(Foo )  ,} , match
-roots as A  {
-    42
-:f32a ,}
-,
-    @lengthOf(leftPad // packet A { u8 x, }
-)
-@leftPad ( // @lengthOf(
-'0' )@calculatedFrom( """"
-    // packet A { u8 x, }
-    ) metadata , }")).
-Eval vm_compute in ("<<<M159>>>" ++ check (runes_of_ascii "packet BodyLength
-    { repeat string As `{ , }`
-,	@tag(4294967296 ) match Pad as
-lengthOf { //	t
-007	: // `tick` ""quote"" 'q'
-i8i8 /// triple
-,""a\""b"": //x
-msg_type,	}, repeat
-    uint32 Z9_ , @tag( 00 )// `tick` ""quote"" 'q'
-charz
-    , string
-    // trailing space 
-    i8i8 // packet A { u8 x, }
-@lengthOf( BodyLength ) ,@calculatedFrom(
-    ""{,}""  )
-    // a // b
-    @leftPad// " ++ [27880; 37322]%N ++ runes_of_ascii "
-( )
-leftPad metadata  ,
-//
-// " ++ [128512]%N ++ runes_of_ascii " emoji
-string i8i8 ``
-    , uint64 trueish@calculatedFrom(
-""1""
-/// triple
-// " ++ [27880; 37322]%N ++ runes_of_ascii "
-) `
-`, }")).
-Eval vm_compute in ("<<<M813>>>" ++ check (runes_of_ascii "root packet
-asx
-    { match float	as float { 10
-    :
-    Z9_,
-    [ 3,
-0 ] //	t
-: leftPad
-, 7 :
-    msg_type ,
-}, BodyLength roots
-, u32
-    len  `tab	here`, @tag(42
-) float64
-charz @lengthOf( float)
-    , u ,char[] T @calculatedFrom(
-    ""a	b"") `// not a comment` , BodyLength ,
-repeat MetaDataX
-    ,
-    @calculatedFrom(
-""CRC32"" )@calculatedFrom(
-// c
-//	t
-""packet"") @leftPad (// a // b
-'\x00' ) msg_type	@lengthOf(
-    /// triple
-    _x
-) ,} options{// c
-crc =
-    ""`tick`"" ; }")).
-Eval vm_compute in ("<<<M4172>>>" ++ check (runes_of_ascii "
-
-  packet	T
-
-{  
-      /// triple
-	// @lengthOf(
-
-@tag( 007 
-) 
-T
-
-    @calculatedFrom( ""CRC32""  )
-
-    //	t
-		//
-  	,  @tag( 	 // " ++ [27880; 37322]%N ++ runes_of_ascii "
-  65535 )
-
     repeat
-tag
-{	a1
-    @calculatedFrom(
 
-""a\""b""
+InPrice29 {
+    u8
 
-    )	,
-
-},
-    As	{char[//	t
-007
-	]lengthOf  , char[]
-x@lengthOf( crc )	``
-
-    ,  repeat
-
-    i8  matchKey
-,tag  Z9_,}	,	repeat
-    // c
-	/// triple
-  uint64
-    zchar 
-    // packet A { u8 x, }
-`doc`
-	, 
-@tag(255  )
-	repeat zchar[
-    7]
-lengthOf	,	}
-")).
-Eval vm_compute in ("<<<M3932>>>" ++ check (runes_of_ascii "root packet pack {
-    repeat u8x `a\`,
-    char[3] MetaDataX `two words`,
-    @leftPad(' ')
-    zchar[4294967296] crc @calculatedFrom(""" ++ [128512]%N ++ runes_of_ascii """),
-    @lengthOf(options1)
-    // " ++ [128512]%N ++ runes_of_ascii " emoji
-    // " ++ [27880; 37322]%N ++ runes_of_ascii "
-    @calculatedFrom(""x y"")
-    repeat u {
-        repeat x_y_z options1 `two words`,
-        zchar[3] charz,
-        Logon {
-            u8 pack,
-            repeat zchar,
-            i8i8 {
-                repeat u8 matchKey,
-            },
-        },
-    },
-}")).
-Eval vm_compute in ("<<<M1163>>>" ++ check (runes_of_ascii "MetaData
-    uint8x {
-_x  stringy ,	i8i8
-_x, char[
-    1 ] a1
-    `it's` ,
-crc metadata
+price
+    ,
+	Logon
 ,
-} packet Logon {/// triple
-repeat Logon stringy
-    , match falsey  as
-T/// triple
-{ [ 1  ]
-    :packetx 65535 : pack	, [ """ ++ [28040; 24687]%N ++ runes_of_ascii """
-, ""abc""] : metadata ,}// @lengthOf(
-,
-@calculatedFrom(	""x y""
-//	t
-//
-)repeat	len {lengthOf @calculatedFrom(
-""`tick`""), u8x msg_type,
-},
-    @calculatedFrom( ""\n"" ) repeat
-    // @lengthOf(
-    i64 BodyLength , }
-")).
-Eval vm_compute in ("<<<M923>>>" ++ check (runes_of_ascii "packet As // " ++ [27880; 37322]%N ++ runes_of_ascii "
-{ zchar[// trailing space 
-3 ] BodyLength ,  @lengthOf( leftPad // a // b
-) @tag( 65535 )
-    roots // trailing space 
-MetaDataX , u32 T
-    `tab	here`,	}
-    packet
-string_{@lengthOf( options1
-) A
-T  `say ""hi""` ,match BodyLength
-    as  As {
-[ // c
-""abc"" , ""abc"" ]: Header ,
-""// no comment"" // trailing space 
-:  packetx  ,  }
-,  } packet
-msg_type { char[]
-Z9_ `" ++ [28040; 24687; 31867; 22411]%N ++ runes_of_ascii "`, repeat msg_type trueish , }")).
-Eval vm_compute in ("<<<M945>>>" ++ check (runes_of_ascii "root packet// trailing space 
-i64_ {@leftPad
-    ( '\x00'
-// a // b
-// `tick` ""quote"" 'q'
-)
-match roots  as A { [ ""\n""
-/// triple
-//
-,
-10 , 00
-    ] :asx ,} ,	zchar[
-1] body
-@calculatedFrom( ""abc"" ) `line1
-line2`// c
-, int8	Z9_ ,	u { falsey zchar ,
-    repeat uint16 a1
-,},repeat uint16 i64_ `crlf
-line`
-, pack  `crlf
-line`
-    , roots ,
-match u128 as o	{00: /// triple
-Header ,},repeat u A , }
-")).
-Eval vm_compute in ("<<<M3995>>>" ++ check (runes_of_ascii "
 
-  root packet
-    i64_
-    { @tag(
+repeat char[1 ]
+Note ,
 
-    4294967296
+},char[]x ,
+Fill , 
+}	, repeat
+Heartbeat
+, }
+root
 
-    ) match  lengthOf
-as	// " ++ [27880; 37322]%N ++ runes_of_ascii "
-charz
-{	1:
-
-    T , } 
-, 
+    packet Order {
+InNote88  {
 repeat
-char[
-00
-	] MetaDataX//x
-  , match // @lengthOf(
-    Foo as chars{ 	 // `tick` ""quote"" 'q'
-    """ ++ [28040; 24687]%N ++ runes_of_ascii """ :
+    i32
+    Acct
+	,
+	repeat
+i16 clOrdID  ,
 
-charz
-	,	}
+    repeat  Logon,} , u16 tag7
+,
+
+match
+
+tag7 
+as  Body { 
+[
+    14
 
 ,
+    22 ]
+
+: Logon,
+    55
+
+: Heartbeat, 93
+	:
+
+Reject
+    , 13
+
+    :Fill , }
+    ,
+
 }
-root packet MetaDataX  {  @lengthOf( chars// " ++ [128512]%N ++ runes_of_ascii " emoji
-		)
-    uint16 Foo , Foo
+")).
+Eval vm_compute in ("<<<M2>>>" ++ check (runes_of_ascii "
+packet int{ len	T , }MetaData trueish { // packet A { u8 x, }
+}
+    packet BodyLength { @calculatedFrom( ""packet"" )
+@calculatedFrom(
+    ""CRC32"" )
+    // c
+    @tag(
+00 ) char[ 4294967296 ] stringy, @lengthOf(
+leftPad
+)// c
+char zchar ,@lengthOf( MetaDataX	)@tag(10) // " ++ [128512]%N ++ runes_of_ascii " emoji
+@rightPad ( '0') options1 matchKey//
+`{ , }`
+    // packet A { u8 x, }
+    , @tag( 42
+    ) @tag( 1 ) @tag( 10
+) char[] // c
+stringy
+`doc` , msg_type `" ++ [233]%N ++ runes_of_ascii "` ,
+@lengthOf(trueish )body {	repeat o stringy `crlf
+line` , repeat u32 i8i8 ,
+    char[65535] stringy
+`a\` ,
+    //x
+    }
+    ,
+@calculatedFrom(""packet""	) matchKey/// triple
+, @tag( 4294967296 ) uint32 rootA @lengthOf( trueish ) ,string body `u8 x,` , }")).
+Eval vm_compute in ("<<<M1634>>>" ++ check (runes_of_ascii "
+// " ++ [128512]%N ++ runes_of_ascii " emoji
+		packet	// @lengthOf(
+    int
+{
+match zchar
+    as	_x
+
+{	[ 4294967296]:x_y_z
+,
+	[
+    ""a\""b""// @lengthOf(
+	] :
+    chars,	[	""it's"" ,
+    ""\" ++ [233]%N ++ runes_of_ascii """
+
+, 
+""packet"" 
+,
+	""{,}""  ] 
+:f32a
+
+}
+, x{ repeat
+
+    asx
+
+    {
+
+zchar[
+	0123456789  ]
+crc 
+`crlf
+line`	, msg_type i8i8
+`crlf
+line`, 
+uint16
+	rootA@calculatedFrom( ""a\\""	) 
+  // @lengthOf(
+
+	,  Logon x_y_z
+
+    `" ++ [233]%N ++ runes_of_ascii "` ,
+
+    }
 
 ,
 	}
-    packet
 
-    zchar  { // trailing space 
-  }
-")).
-Eval vm_compute in ("<<<M1328>>>" ++ check (runes_of_ascii "packet
-zchar { }  root packet f32a {}options { } root //
-packet  options1 {
-@calculatedFrom(
-""`tick`""	)char[] BodyLength , match	x_y_z as string_  {  1
-    : len ,
-    ""\" ++ [233]%N ++ runes_of_ascii """	: lengthOf ,//x
-[""""
-] :
-leftPad
-    , 3
-    : leftPad[""a	b""]
-    :
-BodyLength
+,}	packet
+    u { match
+
+    pack as  trueish //x
+  {
+    ""1""
+	:
+
+len """ ++ [128512]%N ++ runes_of_ascii """ 
+:
+
+    leftPad , 4294967296 	 // @lengthOf(
+	:metadata,}
+
 ,
-} //	t
-,
-// `tick` ""quote"" 'q'
-// trailing space 
-} MetaData matchKey {
-char[ 0123456789 ] u8x	`" ++ [28040; 24687; 31867; 22411]%N ++ runes_of_ascii "`
-,
-    }
-")).
-Eval vm_compute in ("<<<M426>>>" ++ check (runes_of_ascii "
-options
-{A =' '_x
-='\x00' /// triple
-string_  =
-""it's""
-;
-// trailing space 
-// @lengthOf(
-}
-    options
-{ u8x //
-= ""it's""
-    ;
-lengthOf
-= true ; }packet matchKey	{
-    // trailing space 
-    char[ 65535 ]
-charz,
-// " ++ [128512]%N ++ runes_of_ascii " emoji
-//x
-uint8x , @leftPad
-    // a // b
-    ('\x00') repeat tag Pad
-    , i32 i8i8
-@lengthOf(
-    MetaDataX)/// triple
-, }
-")).
-Eval vm_compute in ("<<<M209>>>" ++ check (runes_of_ascii "
-packet //
-u8x
-    {
-    @lengthOf( Logon )
-    u128 { //x
-Logon@lengthOf( msg_type
-), }
-    ,  repeat
-uint8x
-, // @lengthOf(
-int64 // c
-o `tab	here`
-    , }MetaData
-    int{// " ++ [128512]%N ++ runes_of_ascii " emoji
-char[]
-    // `tick` ""quote"" 'q'
-    chars `it's`,	int crc `{ , }`, // @lengthOf(
-}root packet chars
-    { char[]
-x_y_z , }
-// trailing space 
-")).
-Eval vm_compute in ("<<<M978>>>" ++ check (runes_of_ascii "packet
-    calculatedFrom
-{ @tag(
-// packet A { u8 x, }
-// trailing space 
-007
-//	t
-// " ++ [27880; 37322]%N ++ runes_of_ascii "
-)
-/// triple
-// `tick` ""quote"" 'q'
-match
-charz as
-    Pad
-    {[	""a	b""  ,
-255 ]// c
-: a1, 0  :
-lengthOf
-    , 4294967296 : charz
-, [7 , ""a\\"" ,
-    """"
-,	007
-, """ ++ [233]%N ++ runes_of_ascii "t" ++ [233]%N ++ runes_of_ascii """ , """ ++ [28040; 24687]%N ++ runes_of_ascii """, 7 ]:// a // b
-trueish
-, ""\" ++ [233]%N ++ runes_of_ascii """
-    :
-    BodyLength
-}, }
-")).
-Eval vm_compute in ("<<<M3291>>>" ++ check (runes_of_ascii "// top
-packet // c0a
-  // c0b
-o // c1
-{ // c2a
-  // c2b
-@tag( // c3a
-  // c3b
-42 // c4a
-  // c4b
-)
-    // c5
-repeat
-    // c6
-x { char[ // c9a
-  // c9b
-0123456789 // c10
-] // c11a
-  // c11b
-i64_ // c12a
-  // c12b
-,
-    // c13
-} ,
-    // c15
-} options // c17a
-  // c17b
-{ // c18a
-  // c18b
-} // c19a
-  // c19b
-")).
-Eval vm_compute in ("<<<M1475>>>" ++ check (runes_of_ascii "root packet Foo // " ++ [128512]%N ++ runes_of_ascii " emoji
-{ } options {
-    // a // b
-    tag // `tick` ""quote"" 'q'
-= //	t
-""""
-    ; u8x = zchar[ zchar[0  ] }
-MetaData
-    int {zchar[ 10]
-lengthOf	`` , i64 u8x`// not a comment` ,MetaDataX pack// `tick` ""quote"" 'q'
-`crlf
-line`
-, Logon charz `crlf
-line`
-    ,
-    // a // b
-    }
-")).
-Eval vm_compute in ("<<<M1522>>>" ++ check (runes_of_ascii "root packet Foo // " ++ [128512]%N ++ runes_of_ascii " emoji
-{ } options {
-    // a // b
-    tag // `tick` ""quote"" 'q'
-= //	t
-""""
-    ; u8x = zchar[0  ] }
-MetaData
-    int {zchar[ 10 i16
-lengthOf	`` , i64 u8x`// not a comment` ,MetaDataX pack// `tick` ""quote"" 'q'
-`crlf
-line`
-, Logon charz `crlf
-line`
-    ,
-    // a // b
-    }
-")).
-Eval vm_compute in ("<<<M3842>>>" ++ check (runes_of_ascii "MetaData
+int T	`line1
+line2`
+    ,f32 
+Logon
 
-    _x{  BodyLength	string_`crlf
-line` ,  
-      //x
-
-//x
-
-i64 
-    //
-	zchar ,
-
-calculatedFrom MetaDataX
-    ,
-
-    float32 Pad
-`it's`
-	, } 
-packet
-
-    As
-{  repeat //	t
-metadata
-BodyLength  `a\`	,
-
-string 
-Packet `two words`
-	    /// triple
-// `tick` ""quote"" 'q'
-  	,
+,} options {
 } ")).
-Eval vm_compute in ("<<<M1491>>>" ++ check (runes_of_ascii "root packet Foo // " ++ [128512]%N ++ runes_of_ascii " emoji
-{ } options {
-    // a // b
-    tag // `tick` ""quote"" 'q'
-= //	t
-""""
-    ; u8x = zchar[0  ] MetaData
-}
-    int {zchar[ 10]
-lengthOf	`` , i64 u8x`// not a comment` ,MetaDataX pack// `tick` ""quote"" 'q'
-`crlf
-line`
-, Logon charz `crlf
-line`
-    ,
-    // a // b
-    }
-")).
-Eval vm_compute in ("<<<M1459>>>" ++ check (runes_of_ascii "root packet Foo // " ++ [128512]%N ++ runes_of_ascii " emoji
-{ } options {
-    // a // b
-    tag // `tick` ""quote"" 'q'
-= //	t
-""""
-     u8x = zchar[0  ] }
-MetaData
-    int {zchar[ 10]
-lengthOf	`` , i64 u8x`// not a comment` ,MetaDataX pack// `tick` ""quote"" 'q'
-`crlf
-line`
-, Logon charz `crlf
-line`
-    ,
-    // a // b
-    }
-")).
-Eval vm_compute in ("<<<M1499>>>" ++ check (runes_of_ascii "root packet Foo // " ++ [128512]%N ++ runes_of_ascii " emoji
-{ } options {
-    // a // b
-    tag // `tick` ""quote"" 'q'
-= //	t
-""""
-    ; u8x = zchar[0  ] }
-MetaData
-     {zchar[ 10]
-lengthOf	`` , i64 u8x`// not a comment` ,MetaDataX pack// `tick` ""quote"" 'q'
-`crlf
-line`
-, Logon charz `crlf
-line`
-    ,
-    // a // b
-    }
-")).
-Eval vm_compute in ("<<<M4343>>>" ++ check (runes_of_ascii "
-packet	len
-{ @calculatedFrom(""1"")zchar[
-
-    0
-
-    ]tag `u8 x,`
-
-    , @tag(
-	7 )	repeat  uint64
-
-    stringy`// not a comment`  , @calculatedFrom(
-""\n""
-) @lengthOf(
-    trueish) repeat
-	_x	zchar ,	@lengthOf( crc )zchar[
-    255  ] 
-Foo
-    `" ++ [233]%N ++ runes_of_ascii "`
-	,	}	// trailing space 
- 
-")).
-Eval vm_compute in ("<<<M4235>>>" ++ check (runes_of_ascii "
+Eval vm_compute in ("<<<M1713>>>" ++ check (runes_of_ascii "
 packet
 
-As 
+    pack 
 {
-}
+	@rightPad (
+	' ')
+A // c
+    @calculatedFrom( 
+""a\\"")
+    // " ++ [128512]%N ++ runes_of_ascii " emoji
+  // " ++ [128512]%N ++ runes_of_ascii " emoji
+  `
+`,  u8	f32a , 
+zchar[
 
-    MetaData 
-Logon { i16 falsey`a\`	// `tick` ""quote"" 'q'
-      ,
-} MetaData
-
-    T { f64 uint8x`u8 x,`
-, 	 // " ++ [128512]%N ++ runes_of_ascii " emoji
-
-	char[
-00  // @lengthOf(
-	]	T , char[
-
-    0 
-]	Pad
-// c
-
-// c
-	  `crlf
-line`
-	,  char[]
-f32a
-
-,
-
-char[]	asx ,  }  //	t
-")).
-Eval vm_compute in ("<<<M711>>>" ++ check (runes_of_ascii "packet
-tag {u32 crc
-    @lengthOf(
-    a1 ) ,	string falsey `say ""hi""`, @tag( 1 )
-    asx
-, }	options { f32a	=true ; zchar
-= '\x00'
-; }packet BodyLength
-//
-// " ++ [128512]%N ++ runes_of_ascii " emoji
-{@tag( 007
-    ) @calculatedFrom( """ ++ [128512]%N ++ runes_of_ascii """ )repeat zchar[
-007 ]
-    packetx ,
-    }
-/// triple
-")).
-Eval vm_compute in ("<<<M1317>>>" ++ check (runes_of_ascii "options
-{
-uint8x =""{,}""
-// `tick` ""quote"" 'q'
-// " ++ [128512]%N ++ runes_of_ascii " emoji
-; } packet asx { match f32a
-    as
-    msg_type {
-    ""{,}"":  int [ """ ++ [233]%N ++ runes_of_ascii "t" ++ [233]%N ++ runes_of_ascii """
-,	""a\\"" ,3 ,
-    """ ++ [128512]%N ++ runes_of_ascii """ , 1  , ""a\""b"" , """ ++ [128512]%N ++ runes_of_ascii """ ] : repeatCount ,}
-, string Z9_
-`{ , }`,
-u128 {
-char[] Packet
-    , } ,//	t
-}")).
-Eval vm_compute in ("<<<M1583>>>" ++ check (runes_of_ascii "root packet Foo // " ++ [128512]%N ++ runes_of_ascii " emoji
-{ } options {
-    // a // b
-    tag // `tick` ""quote"" 'q'
-= //	t
-""""
-    ; u8x = zchar[0  ] }
-MetaData
-    int {zchar[ 10]
-lengthOf	`` , i64 u8x`// not a comment` ,MetaDataX pack// `tick` ""quote"" 'q'
-`crlf
-line`
-,")).
-Eval vm_compute in ("<<<M581>>>" ++ check (runes_of_ascii "/// triple
-MetaData zchar {As
-As ,
-    // a // b
-    int32 crc , trueish string_ `two words` , } // `tick` ""quote"" 'q'
-options { rootA =	'0' // " ++ [128512]%N ++ runes_of_ascii " emoji
-string_
-    =10	; }
-options //	t
-{ // a // b
-tag = 0
-;  i64_
-=	0
-;}
-// " ++ [27880; 37322]%N ++ runes_of_ascii "
-")).
-Eval vm_compute in ("<<<M695>>>" ++ check (runes_of_ascii "  packet
-    int // trailing space 
-{ } // a // b
-root packet uint8x {
-repeat
-zchar[42
-    ]asx`it's` , @calculatedFrom(""CRC32"" ) float64  options1
-    `{ , }`, } options { string_// trailing space 
-=
-    char[] ; } // c")).
-Eval vm_compute in ("<<<M2311>>>" ++ check (runes_of_ascii "MetaData Packet { }packet	asx  { @lengthOf( asx) falsey`crlf
-line`
-,
-    }
-    packet x	{uint32// @lengthOf(
-rootA	,u32 u32 options1 `say ""hi""` , @tag( 7
-    )// packet A { u8 x, }
-msg_type @lengthOf(
-stringy	)	, }
-
-")).
-Eval vm_compute in ("<<<M2257>>>" ++ check (runes_of_ascii "MetaData Packet { }packet	asx  { @lengthOf( asx falsey )`crlf
-line`
-,
-    }
-    packet x	{uint32// @lengthOf(
-rootA	,u32 options1 `say ""hi""` , @tag( 7
-    )// packet A { u8 x, }
-msg_type @lengthOf(
-stringy	)	, }
-
-")).
-Eval vm_compute in ("<<<M2283>>>" ++ check (runes_of_ascii "MetaData Packet { }packet	asx  { @lengthOf( asx) falsey`crlf
-line`
-,
-    }
-    uint64 x	{uint32// @lengthOf(
-rootA	,u32 options1 `say ""hi""` , @tag( 7
-    )// packet A { u8 x, }
-msg_type @lengthOf(
-stringy	)	, }
-
-")).
-Eval vm_compute in ("<<<M2333>>>" ++ check (runes_of_ascii "MetaData Packet { }packet	asx  { @lengthOf( asx) falsey`crlf
-line`
-,
-    }
-    packet x	{uint32// @lengthOf(
-rootA	,u32 options1 `say ""hi""` , root 7
-    )// packet A { u8 x, }
-msg_type @lengthOf(
-stringy	)	, }
-
-")).
-Eval vm_compute in ("<<<M1274>>>" ++ check (runes_of_ascii "options //x
-{ }
-    MetaData	i8i8
-    // @lengthOf(
-    {
-Z9_ //x
-MetaDataX
-    , } options { A=	""a	b"" ; crc =
-'0'; charz = false ; zchar
-    = string _x =
-""a\\"" }// packet A { u8 x, }
-root
-packet
-int { } 	 ")).
-Eval vm_compute in ("<<<M2245>>>" ++ check (runes_of_ascii "MetaData Packet { }packet	asx  {  asx) falsey`crlf
-line`
-,
-    }
-    packet x	{uint32// @lengthOf(
-rootA	,u32 options1 `say ""hi""` , @tag( 7
-    )// packet A { u8 x, }
-msg_type @lengthOf(
-stringy	)	, }
-
-")).
-Eval vm_compute in ("<<<M1234>>>" ++ check (runes_of_ascii "packet zchar
-    // @lengthOf(
-    {
-@tag( 255 ) match  u128 as roots { 0123456789 : //x
-u} ,
-zchar[ 4294967296
-]charz// " ++ [128512]%N ++ runes_of_ascii " emoji
-`tab	here`
-, // " ++ [27880; 37322]%N ++ runes_of_ascii "
-match
-uint8x as leftPad { 10
-: _x //x
-, }, }
-")).
-Eval vm_compute in ("<<<M1212>>>" ++ check (runes_of_ascii "packet
-As {@tag(
-7) repeat char[ 4294967296 ]	stringy,int16 falsey
-,@tag(
-00 )
-    repeat u16 rootA
-    `crlf
-line`// @lengthOf(
-,
-calculatedFrom charz ,} MetaData a1 {}MetaData asx
-{ }
-")).
-Eval vm_compute in ("<<<M34>>>" ++ check (runes_of_ascii "options{// `tick` ""quote"" 'q'
-len // `tick` ""quote"" 'q'
-= """ ++ [28040; 24687]%N ++ runes_of_ascii """;
-options1 = // " ++ [27880; 37322]%N ++ runes_of_ascii "
-int32 zchar	=
-    ""1"" ;float
-= true tag =""" ++ [28040; 24687]%N ++ runes_of_ascii """ ; } MetaData u128 { msg_type i8i8 `doc` ,	o body
-, }
-")).
-Eval vm_compute in ("<<<M1007>>>" ++ check (runes_of_ascii "MetaData options1 //	t
-{ u32 uint8x
-, int16 options1 ,
-    } options { trueish = 65535	; Header = i64 ;	x_y_z = false Logon =
-    char[]
-// `tick` ""quote"" 'q'
+    007
+	]rootA	`u8 x,` ,	repeat
+    /// triple
 // a // b
-; }")).
-Eval vm_compute in ("<<<M594>>>" ++ check (runes_of_ascii "MetaData
-// packet A { u8 x, }
-// @lengthOf(
-string_ { char[]
-Pad `// not a comment`
-, i32// a // b
-lengthOf `{ , }` ,	u16
-    As , len x_y_z , char[] rootA
-    , }
+
+string u128//
+  	`u8 x,`
+, @leftPad
+    ( ' '
+) char[ 1
+	]
+repeatCount
+	@calculatedFrom(  //x
+      ""\n"" )
+`doc`
+,
+
+o ,
+falsey leftPad
+
+    , 
+@calculatedFrom( ""a\""b""  )
+	@leftPad
+(
+
+'0'
+    )
+//
+// " ++ [27880; 37322]%N ++ runes_of_ascii "
+  roots 
+{
+	u8
+    zchar @lengthOf(
+	Logon
+)	// trailing space 
+  ,
+
+// c
+  //	t
+
+	}
+	,	}
 
 ")).
-Eval vm_compute in ("<<<M1249>>>" ++ check (runes_of_ascii "  options {  falsey =	u8
-;	metadata = ' ' leftPad = int64 ; lengthOf
-=
-    255 string_= // packet A { u8 x, }
-""a\""b"" ; } MetaData //
-uint8x	{ u32
-zchar , //x
-}")).
-Eval vm_compute in ("<<<M952>>>" ++ check (runes_of_ascii "packet msg_type
-{ char[]
-    body@calculatedFrom(
-    ""1"" )`doc` , @tag( 00 ) lengthOf
-@lengthOf( // c
-trueish)
-    `crlf
-line` , } // trailing space ")).
-Eval vm_compute in ("<<<M4234>>>" ++ check (runes_of_ascii "MetaData options1 {
-    u32 uint8x,
-    int16 options1,
+Eval vm_compute in ("<<<M30>>>" ++ check (runes_of_ascii "packet  chars { zchar[ 10
+    ]x
+@lengthOf( repeatCount )
+    ,
+repeat
+    metadata{
+string int ,repeat
+matchKey //x
+, match leftPad as o { 0 : matchKey
+    // " ++ [27880; 37322]%N ++ runes_of_ascii "
+    ,
+[ 0 ]
+: float 0 : packetx// " ++ [128512]%N ++ runes_of_ascii " emoji
+255 :i64_
+    ,//	t
+[0 , 007 , ""a\\"" ,
+    //	t
+    """ ++ [128512]%N ++ runes_of_ascii """
+    ,
+65535  , 255 ]
+:
+charz ,	255 : u,	} , },  @rightPad( ' ' )
+// packet A { u8 x, }
+// " ++ [128512]%N ++ runes_of_ascii " emoji
+@tag( 255
+) // c
+@rightPad
+(	' ' ) u16 falsey,}options
+    { f32a
+= """ ++ [128512]%N ++ runes_of_ascii """ ;	}
+")).
+Eval vm_compute in ("<<<M367>>>" ++ check (runes_of_ascii "packet	T  {
+/// triple
+// @lengthOf(
+@tag( 007 )
+T
+    @calculatedFrom( ""CRC32"")
+//	t
+//
+, @tag( // " ++ [27880; 37322]%N ++ runes_of_ascii "
+65535	) repeat
+    tag { a1 @calculatedFrom( ""a\""b"" )	, }
+,
+As
+    {
+    char[ //	t
+007 ] lengthOf , char[]x @lengthOf(crc )`` ,  repeat
+i8
+    matchKey , tag Z9_ , } ,repeat
+// c
+/// triple
+uint64
+zchar
+    // packet A { u8 x, }
+    `doc` ,	@tag(255
+)repeat zchar[ 7 ]lengthOf
+, }")).
+Eval vm_compute in ("<<<M1755>>>" ++ check (runes_of_ascii "// " ++ [27880; 37322]%N ++ runes_of_ascii "
+packet tag {
+    repeat i64_ {
+        zchar[007] Logon @calculatedFrom(""packet""),
+        repeat char[] leftPad `a\`,
+        zchar[3] float,
+    },
 }
+
+packet pack {
+    repeat i8 len `
+        `,
+}
+
+root packet uint8x {
+    // packet A { u8 x, }
+    @leftPad()
+    @calculatedFrom(""a\\"")
+    @rightPad('\x00')
+    repeat char[0] T,
+}//	t")).
+Eval vm_compute in ("<<<M283>>>" ++ check (runes_of_ascii "root packet
+    i64_ {@tag(4294967296) match lengthOf as // " ++ [27880; 37322]%N ++ runes_of_ascii "
+charz	{ 1 :
+T , } ,repeat char[ 00]
+MetaDataX //x
+,
+match // @lengthOf(
+Foo as
+    chars{ // `tick` ""quote"" 'q'
+""" ++ [28040; 24687]%N ++ runes_of_ascii """:charz
+, } ,} root packet MetaDataX {
+@lengthOf( chars// " ++ [128512]%N ++ runes_of_ascii " emoji
+)
+uint16 Foo , Foo ,
+    } packet zchar { // trailing space 
+}")).
+Eval vm_compute in ("<<<M236>>>" ++ check (runes_of_ascii "root packet
+    x_y_z{ match lengthOf
+as // `tick` ""quote"" 'q'
+rootA { 42 :
+    asx } ,	@rightPad(
+' ' ) repeat u16 int`// not a comment`, @tag(42	)rootA string_, int32 lengthOf // trailing space 
+,match
+    As as falsey { [ ""// no comment"" ] :
+    calculatedFrom,
+    } , }
+")).
+Eval vm_compute in ("<<<M1615>>>" ++ check (runes_of_ascii "packet
+
+Inner { 
+u8 a  
+  // c4
+,
+
+// c5
+
+	} 
+	// c6
+		root // c7a
+	  // c7b
+      packet // c8a
+	// c8b
+  P 	 // c9a
+	// c9b
+    {
+    // c10
+
+repeat	Inner
+    items
+
+    , 
+
+    // c14
+	u8	// c15
+  	x
+        // c16
+	, 	 // c17
+	} ")).
+Eval vm_compute in ("<<<M577>>>" ++ check (runes_of_ascii "options
+{
+matchKey = 42/// triple
+x='0' ;
+// packet A { u8 x, }
+//
+charz
+=
+// packet A { u8 x, }
+// traili@leftpadng space 
+true  ; } MetaData BodyLength
+{
+uint8
+pack,zchar[ 1]float ,  float32 x_y_z `` ,u32
+_x,i16 body  , }
+")).
+Eval vm_compute in ("<<<M414>>>" ++ check (runes_of_ascii "options
+{
+matchKey = 42/// triple
+root='0' ;
+// packet A { u8 x, }
+//
+charz
+=
+// packet A { u8 x, }
+// trailing space 
+true  ; } MetaData BodyLength
+{
+uint8
+pack,zchar[ 1]float ,  float32 x_y_z `` ,u32
+_x,i16 body  , }
+")).
+Eval vm_compute in ("<<<M581>>>" ++ check (runes_of_ascii "options''
+{
+matchKey = 42/// triple
+x='0' ;
+// packet A { u8 x, }
+//
+charz
+=
+// packet A { u8 x, }
+// trailing space 
+true  ; } MetaData BodyLength
+{
+uint8
+pack,zchar[ 1]float ,  float32 x_y_z `` ,u32
+_x,i16 body  , }
+")).
+Eval vm_compute in ("<<<M443>>>" ++ check (runes_of_ascii "options
+{
+matchKey = 42/// triple
+x='0' ;
+// packet A { u8 x, }
+//
+charz
+=
+// packet A { u8 x, }
+// trailing space 
+;  true } MetaData BodyLength
+{
+uint8
+pack,zchar[ 1]float ,  float32 x_y_z `` ,u32
+_x,i16 body  , }
+")).
+Eval vm_compute in ("<<<M451>>>" ++ check (runes_of_ascii "options
+{
+matchKey = 42/// triple
+x='0' ;
+// packet A { u8 x, }
+//
+charz
+=
+// packet A { u8 x, }
+// trailing space 
+true  ;  MetaData BodyLength
+{
+uint8
+pack,zchar[ 1]float ,  float32 x_y_z `` ,u32
+_x,i16 body  , }
+")).
+Eval vm_compute in ("<<<M516>>>" ++ check (runes_of_ascii "options
+{
+matchKey = 42/// triple
+x='0' ;
+// packet A { u8 x, }
+//
+charz
+=
+// packet A { u8 x, }
+// trailing space 
+true  ; } MetaData BodyLength
+{
+uint8
+pack,zchar[ 1]float ,  float32  `` ,u32
+_x,i16 body  , }
+")).
+Eval vm_compute in ("<<<M1736>>>" ++ check (runes_of_ascii "// c
+packet i64_ {
+    calculatedFrom,
+}
+
+packet trueish {
+    @calculatedFrom(""a\\"")
+    o {
+        i32 falsey @lengthOf(uint8x),
+    },
+}// `tick` ""quote"" 'q'
 
 options {
-    trueish = 65535;
-    Header = i64;
-    x_y_z = false
-    Logon = char[];
-}")).
-Eval vm_compute in ("<<<M1668>>>" ++ check (runes_of_ascii "root packet /// triple
-rootA {	i32
-MetaDataX@calculatedFrom( ""CRC32"" ) `line1
-line2` `line1
-line2` , } MetaData BodyLength {
-u8
-rootA, } // c")).
-Eval vm_compute in ("<<<M200>>>" ++ check (runes_of_ascii "
-root packet	f32a {char[]x_y_z `doc` ,@calculatedFrom(	""CRC32""
-) A tag `u8 x,`
-,
-int , } options { Packet =""1""
-    ; } options {  } 	 ")).
-Eval vm_compute in ("<<<M1695>>>" ++ check (runes_of_ascii "root packet /// triple
-rootA {	i32
-MetaDataX@calculatedFrom( ""CRC32"" ) `line1
-line2` , } MetaData BodyLength packet
-u8
-rootA, } // c")).
-Eval vm_compute in ("<<<M1665>>>" ++ check (runes_of_ascii "root packet /// triple
-rootA {	i32
-MetaDataX@calculatedFrom( ""CRC32"" i64 `line1
-line2` , } MetaData BodyLength {
-u8
-rootA, } // c")).
-Eval vm_compute in ("<<<M1659>>>" ++ check (runes_of_ascii "root packet /// triple
-rootA {	i32
-MetaDataX@calculatedFrom( ) ""CRC32"" `line1
-line2` , } MetaData BodyLength {
-u8
-rootA, } // c")).
-Eval vm_compute in ("<<<M1882>>>" ++ check (runes_of_ascii "packet
-    Pad // a // b
-{@lengthOf i8i8 @calculatedFrom( ""a	b"") `u8 x,` ,
-} options{ float// " ++ [128512]%N ++ runes_of_ascii " emoji
-= f64 i64_
-=//	t
-00 }
-")).
-Eval vm_compute in ("<<<M1690>>>" ++ check (runes_of_ascii "root packet /// triple
-rootA {	i32
-MetaDataX@calculatedFrom( ""CRC32"" ) `line1
-line2` , } MetaData uint16 {
-u8
-rootA, } // c")).
-Eval vm_compute in ("<<<M4298>>>" ++ check (runes_of_ascii "packet A {
-    u16 len @lengthOf(body) `
-        x`,
-    u32 crc @calculatedFrom(""CRC32"") `
-        x`,
-    string body,
-}")).
-Eval vm_compute in ("<<<M596>>>" ++ check (runes_of_ascii "options {
-}  MetaData
     // c
-    x_y_z
-{u32	u8x	`line1
-line2` , float64 u // a // b
-`line1
-line2`  , } // @lengthOf(")).
-Eval vm_compute in ("<<<M1884>>>" ++ check (runes_of_ascii "packet
-    Pad // a // b
-{ i8i8 @calculatedFrom( ""a	b"") `u8 x,` ,
-} options{ float// " ++ [128512]%N ++ runes_of_ascii " emoji
-= f64 i64_'
-=//	t
-00 }
+    Z9_ = ' '//
+}")).
+Eval vm_compute in ("<<<M667>>>" ++ check (runes_of_ascii "// c
+packet i64_ {	char[] calculatedFrom , } packet
+trueish  {@calculatedFrom(
+""a\\"" ) o zchar[ i32 falsey@lengthOf( uint8x ),
+} , } // `tick` ""quote"" 'q'
+options {// c
+Z9_ = ' '//
+}
 ")).
-Eval vm_compute in ("<<<M1847>>>" ++ check (runes_of_ascii "packet
-    Pad // a // b
-{ i8i8 @calculatedFrom( ""a	b"") `u8 x,` ,
-} options{ float// " ++ [128512]%N ++ runes_of_ascii " emoji
-f64 = i64_
-=//	t
-00 }
+Eval vm_compute in ("<<<M669>>>" ++ check (runes_of_ascii "// c
+packet i64_ {	char[] calculatedFrom , packet }
+trueish  {@calculatedFrom(
+""a\\"" ) o { i32 falsey@lengthOf( uint8x ),
+} , } // `tick` ""quote"" 'q'
+options {// c
+Z9_ = ' '//
+}
 ")).
-Eval vm_compute in ("<<<M4168>>>" ++ check (runes_of_ascii "packet Z9_ {
-    match leftPad as options1 {
-        65535 : matchKey,
-        // packet A { u8 x, }
+Eval vm_compute in ("<<<M510>>>" ++ check (runes_of_ascii "options
+{
+matchKey = 42/// triple
+x='0' ;
+// packet A { u8 x, }
+//
+charz
+=
+// packet A { u8 x, }
+// trailing space 
+true  ; } MetaData BodyLength
+{
+uint8
+pack,zchar[ 1]float")).
+Eval vm_compute in ("<<<M1387>>>" ++ check (runes_of_ascii "
+packet
+    A
+
+{u8
+a
+
+    ,}
+
+packet
+B
+
+{u16 
+b
+,
+    }
+
+    root
+    packet
+P	{
+u8 K
+,match
+	K  as 
+M
+
+    {
+	1 :  A  ,	1
+
+    :
+    B ,
+	}
+
+    ,
+
+}")).
+Eval vm_compute in ("<<<M55>>>" ++ check (runes_of_ascii "
+packet Foo
+    {
+    repeat
+int
+    //x
+    { string u @calculatedFrom( ""packet"")	`` // @lengthOf(
+,}
+,zchar[ 007 ]  A
+    `doc`, }
+options { }")).
+Eval vm_compute in ("<<<M1493>>>" ++ check (runes_of_ascii "packet A {
+    Inner {
+        u8 x `
+                `,
+        Deep {
+            u8 y `
+                        `,
+        },
     },
-    T,
 }")).
-Eval vm_compute in ("<<<M3835>>>" ++ check (runes_of_ascii "MetaData Logon {
-    zchar[10] float `" ++ [233]%N ++ runes_of_ascii "`,
-    BodyLength Z9_,
-    float32 o `a\`,
-    uint64 roots `two words`,
-}")).
-Eval vm_compute in ("<<<M1815>>>" ++ check (runes_of_ascii "packet
-    Pad // a // b
-{ i8i8 @calculatedFrom( ""a	b"")  ,
-} options{ float// " ++ [128512]%N ++ runes_of_ascii " emoji
-= f64 i64_
-=//	t
-00 }
+Eval vm_compute in ("<<<M1699>>>" ++ check (runes_of_ascii "
+packet
+
+    Logon
+{  @tag(	42
+
+    ) @rightPad (
+' '	)
+	@leftPad 
+    // c
+  	() 
+repeat	trueish { string
+T 
+,
+
+    }	, }
 ")).
-Eval vm_compute in ("<<<M2996>>>" ++ check (runes_of_ascii "packet A {
+Eval vm_compute in ("<<<M685>>>" ++ check (runes_of_ascii "// c
+packet i64_ {	char[] calculatedFrom , } packet
+trueish  {@calculatedFrom(
+""a\\"" ) o { i32 falsey@lengthOf( uint8x ),
+}")).
+Eval vm_compute in ("<<<M2033>>>" ++ check (runes_of_ascii "
+packet
+	A 
+{
+match
+
+k as n{[
+	""a"",
+
+22
+
+,""c c""
+	, 4
+	,	""e"" ,66
+
+,
+""g"" ,
+    8
+    ,
+	""i"" ]: B ,2	:
+    C
+	}
+
+    , }")).
+Eval vm_compute in ("<<<M1920>>>" ++ check (runes_of_ascii "
+packet Logon 
+// c
+  { 
+@tag( 42) @rightPad
+(
+	' ' )
+@leftPad  (	) repeat
+	trueish
+{
+
+    string
+    T ,}
+,  } ")).
+Eval vm_compute in ("<<<M358>>>" ++ check (runes_of_ascii "MetaData Packet { u128  u128 `say ""hi""` ,
+    // @lengthOf(
+    zchar
+    len ,
+Pad T `say ""hi""` // " ++ [128512]%N ++ runes_of_ascii " emoji
+,
+}
+")).
+Eval vm_compute in ("<<<M674>>>" ++ check (runes_of_ascii "// c
+packet i64_ {	char[] calculatedFrom , } packet
+trueish  {@calculatedFrom(
+""a\\"" ) o { i32 falsey@lengthOf(")).
+Eval vm_compute in ("<<<M961>>>" ++ check (runes_of_ascii "packet A {
+    Inner {
+        u8 x `tab
+	x`,
+        Deep {
+            u8 y `tab
+	x`,
+        },
+    },
+}")).
+Eval vm_compute in ("<<<M1253>>>" ++ check (runes_of_ascii "packet // c
+calculatedFrom { @tag( 4294967296 ) u msg_type , char[ 3 ] crc @lengthOf( len ) `u8 x,` , }")).
+Eval vm_compute in ("<<<M1285>>>" ++ check (runes_of_ascii "packet calculatedFrom { @tag( 4294967296 ) u msg_type , char[ 3 ] crc @lengthOf( len ) `u8 x,` // c
+, }")).
+Eval vm_compute in ("<<<M884>>>" ++ check (runes_of_ascii "packet A {
   match k as n {
-    [""a"", 22, ""c c"", 4, ""e"", 66, ""g"", 8, ""i"", 10, ""k"", 12] : B
+    [""a"", 22, ""c c"", 4, ""e"", 66, ""g"", 8, ""i"", 10] : B
     2 : C
   },
 }")).
-Eval vm_compute in ("<<<M3016>>>" ++ check (runes_of_ascii "packet A {
-    u16 len @lengthOf(body) `
-`,
-    u32 crc @calculatedFrom(""CRC32"") `
-`,
-    string body,
-}")).
-Eval vm_compute in ("<<<M3354>>>" ++ check (runes_of_ascii "packet calculatedFrom { @tag( 4294967296 ) u msg_type
+Eval vm_compute in ("<<<M1131>>>" ++ check (runes_of_ascii "packet
 // c
-, char[ 3 ] crc @lengthOf( len ) `u8 x,` , }")).
-Eval vm_compute in ("<<<M3634>>>" ++ check (runes_of_ascii "// c
-root packet u128 {
-    asx,
-}
+Logon { @tag( 42 ) @rightPad ( ' ' ) @leftPad ( ) repeat trueish { string T , } , }")).
+Eval vm_compute in ("<<<M1163>>>" ++ check (runes_of_ascii "packet Logon { @tag( 42 ) @rightPad ( ' ' ) @leftPad ( ) repeat trueish { string
+// c
+T , } , }")).
+Eval vm_compute in ("<<<M1918>>>" ++ check (runes_of_ascii "
+MetaData Z9_{
+a1 
 
-packet body {
-    @lengthOf(i8i8)
-    crc @lengthOf(Header),
-}// c")).
-Eval vm_compute in ("<<<M697>>>" ++ check (runes_of_ascii "options
-{ tag = 42 }root packet
-pack { zchar[ 007
-// `tick` ""quote"" 'q'
-// @lengthOf(
-]	Packet , }")).
-Eval vm_compute in ("<<<M3442>>>" ++ check (runes_of_ascii "packet B {
-    u8 a,
-    string s,
-}
-root packet P {
-    u16 L @lengthOf(B),
-    B,
-    u8 t,
+    //
+	/// triple
+	Z9_,zchar[
+
+10
+	]
+
+    x
+    ,  } options {
+
 }
 ")).
-Eval vm_compute in ("<<<M3230>>>" ++ check (runes_of_ascii "packet Logon { @tag( 42 ) @rightPad ( // c
-' ' ) @leftPad ( ) repeat trueish { string T , } , }")).
-Eval vm_compute in ("<<<M548>>>" ++ check (runes_of_ascii "packet leftPad { char[] MetaDataX `crlf
-line` , f32 pack @calculatedFrom(	""a\\"" ) `" ++ [28040; 24687; 31867; 22411]%N ++ runes_of_ascii "` , }
-")).
-Eval vm_compute in ("<<<M4150>>>" ++ check (runes_of_ascii "
-packet
-A { 
-match
-	k 
-as
-n
+Eval vm_compute in ("<<<M1740>>>" ++ check (runes_of_ascii "  packet
+A
+	{
+@leftPad
+	(
 
-    {
-	[ ""a""
-	,
-	""bb"" , 007 
-]	:
-    B
-	2:
-    C 
-}
+    )char[
+	4
+]	x
 ,
+@rightPad
+( )
+zchar[ 2 ]y
+,
+    }
 
-} ")).
-Eval vm_compute in ("<<<M1686>>>" ++ check (runes_of_ascii "root packet /// triple
-rootA {	i32
-MetaDataX@calculatedFrom( ""CRC32"" ) `line1
-line2` , }")).
-Eval vm_compute in ("<<<M2002>>>" ++ check (runes_of_ascii "root
-packet crc
-    { f32a @calculatedFrom( """ ++ [233]%N ++ runes_of_ascii "t" ++ [233]%N ++ runes_of_ascii """ )
-    `say ""hi""`, , lengthOf `` ,  }")).
-Eval vm_compute in ("<<<M2042>>>" ++ check (runes_of_ascii "`root
-packet crc
-    { f32a @calculatedFrom( """ ++ [233]%N ++ runes_of_ascii "t" ++ [233]%N ++ runes_of_ascii """ )
-    `say ""hi""`, lengthOf `` ,  }")).
-Eval vm_compute in ("<<<M3421>>>" ++ check (runes_of_ascii "options {
-    LittleEndian = true;
+")).
+Eval vm_compute in ("<<<M1391>>>" ++ check (runes_of_ascii "packet order_item {
+    u8 a,
 }
-root packet P {
-    repeat char cs,
+root packet new_order {
+    order_item,
     u8 x,
 }
 ")).
-Eval vm_compute in ("<<<M3905>>>" ++ check (runes_of_ascii "packet A {
-    match k as n {
-        [""a"", 22, ""c c""] : B,
-        2 : C,
-    },
-}")).
-Eval vm_compute in ("<<<M3297>>>" ++ check (runes_of_ascii "packet o
-// c
-{ @tag( 42 ) repeat x { char[ 0123456789 ] i64_ , } , } options { }")).
-Eval vm_compute in ("<<<M3329>>>" ++ check (runes_of_ascii "packet o { @tag( 42 ) repeat x { char[ 0123456789 ] i64_ , } , } options
-// c
-{ }")).
-Eval vm_compute in ("<<<M2909>>>" ++ check (runes_of_ascii "packet A {
-  match k as n {
-    [""a"", ""bb"", 007, ""d"", ""e""] : B
-    2 : C
-  },
-}")).
-Eval vm_compute in ("<<<M3612>>>" ++ check (runes_of_ascii "MetaData Pad {
-    roots options1 `tab	here`,//	t
-    char[0123456789] Foo,
-}")).
-Eval vm_compute in ("<<<M291>>>" ++ check (runes_of_ascii "options
-    { }
-    packet
-    string_ {@rightPad ( '0'// c
-)
-u16 body , }")).
-Eval vm_compute in ("<<<M2198>>>" ++ check (runes_of_ascii "root
-    // `'\x01'tick` ""quote"" 'q'
-    packet As { trueish Packet , }
-")).
-Eval vm_compute in ("<<<M2279>>>" ++ check (runes_of_ascii "MetaData Packet { }packet	asx  { @lengthOf( asx) falsey`crlf
-line`
-,")).
-Eval vm_compute in ("<<<M1903>>>" ++ check (runes_of_ascii "
-packet	@calculatedFrom( { @calculatedFrom(//x
-""{,}""	)lengthOf , } 	 ")).
-Eval vm_compute in ("<<<M2880>>>" ++ check (runes_of_ascii "packet A {
-  match k as n {
-    [1, 22, ""c c""] : B,
-    2 : C
-  },
-}")).
-Eval vm_compute in ("<<<M2173>>>" ++ check (runes_of_ascii "root
-    // `tick` ""quote"" 'q'
-    packet As { Packet trueish , }
-")).
-Eval vm_compute in ("<<<M1174>>>" ++ check (runes_of_ascii "options { asx = '\x00'// packet A { u8 x, }
-;
-    float = '0';
-}")).
-Eval vm_compute in ("<<<M2191>>>" ++ check (runes_of_ascii "root
-    // `tick` ""quote"" 'q'
-    packet As { trueish Packet ")).
-Eval vm_compute in ("<<<M3039>>>" ++ check (runes_of_ascii "packet A {
-    B b `
-x`,
-    B `
-x`,
-    repeat B bs `
-x`,
-}")).
-Eval vm_compute in ("<<<M3710>>>" ++ check (runes_of_ascii "root packet f32a {
-    packetx @calculatedFrom(""CRC32""),
-}")).
-Eval vm_compute in ("<<<M783>>>" ++ check (runes_of_ascii "MetaData options1 { char[] rootA ,
-    a1 body
-`" ++ [233]%N ++ runes_of_ascii "` , }
-")).
-Eval vm_compute in ("<<<M277>>>" ++ check (runes_of_ascii "  MetaData/// triple
-pack{
-i64 Header
-, u64
-As
-,
+Eval vm_compute in ("<<<M1214>>>" ++ check (runes_of_ascii "packet o { @tag( // c
+42 ) repeat x { char[ 0123456789 ] i64_ , } , } options { }")).
+Eval vm_compute in ("<<<M1394>>>" ++ check (runes_of_ascii "packet orderItem {
+    u8 a,
+}
+root packet newOrder {
+    orderItem,
+    u8 x,
 }
 ")).
-Eval vm_compute in ("<<<M356>>>" ++ check (runes_of_ascii "packet
-    x_y_z {
-i8 As@calculatedFrom(""a	b""	)  ,}")).
-Eval vm_compute in ("<<<M4083>>>" ++ check (runes_of_ascii "
-root
-packet A  { u8	x
+Eval vm_compute in ("<<<M834>>>" ++ check (runes_of_ascii "packet A {
+  match k as n {
+    [1, 22, ""c c"", 4, 5, ""f""] : B
+    2 : C
+  },
+}")).
+Eval vm_compute in ("<<<M810>>>" ++ check (runes_of_ascii "packet A {
+  match k as n {
+    [""a"", ""bb"", 007, ""d""] : B
+    2 : C
+  },
+}")).
+Eval vm_compute in ("<<<M1308>>>" ++ check (runes_of_ascii "
+// c
+MetaData _x { zchar[ 4294967296 ] lengthOf `// not a comment` , }")).
+Eval vm_compute in ("<<<M1864>>>" ++ check (runes_of_ascii "MetaData u8x {
+    uint32 i8i8 `it's`,
+}
 
-`a
-    b
-  c`
+options {
+    Logon = '0';
+}")).
+Eval vm_compute in ("<<<M787>>>" ++ check (runes_of_ascii "packet A {
+  match k as n {
+    [1, 22, 007] : B
+    2 : C
+  },
+}")).
+Eval vm_compute in ("<<<M1334>>>" ++ check (runes_of_ascii "root  packet
 
-,
+    P
 
-    } ")).
-Eval vm_compute in ("<<<M2400>>>" ++ check (runes_of_ascii "MetaData [
-{
-i64
-chars	, } // `tick` ""quote"" 'q'")).
-Eval vm_compute in ("<<<M3030>>>" ++ check (runes_of_ascii "MetaData M {
+    {
+repeat
+char cs  ,
+u8
+x  ,
+} ")).
+Eval vm_compute in ("<<<M739>>>" ++ check (runes_of_ascii "as trueish match @calculatedFrom( @rightPad false [ i64")).
+Eval vm_compute in ("<<<M920>>>" ++ check (runes_of_ascii "MetaData M {
     u8 x `a
-
 b`,
     T t `a
-
 b`,
 }")).
-Eval vm_compute in ("<<<M1656>>>" ++ check (runes_of_ascii "root packet /// triple
-rootA {	i32
-MetaDataX")).
-Eval vm_compute in ("<<<M4129>>>" ++ check (runes_of_ascii "options {
-    Foo = int8;
-    As = 007
-}//	t")).
-Eval vm_compute in ("<<<M2115>>>" ++ check (runes_of_ascii "MetaData x
-{// " ++ [128512]%N ++ runes_of_ascii " emoji
-i16 i16 stringy , }")).
-Eval vm_compute in ("<<<M786>>>" ++ check (runes_of_ascii "options{MetaDataX = char[] }
-/// triple
-")).
-Eval vm_compute in ("<<<M3197>>>" ++ check (runes_of_ascii "MetaData zchar { zchar[
-// c
-3 ] Pad , }")).
-Eval vm_compute in ("<<<M2845>>>" ++ check (runes_of_ascii "k" ++ [65533]%N ++ runes_of_ascii "4" ++ [65533]%N ++ runes_of_ascii "uQ" ++ [65533]%N ++ runes_of_ascii "az" ++ [65533]%N ++ runes_of_ascii "e" ++ [65533; 65533]%N ++ runes_of_ascii ":" ++ [65533]%N ++ runes_of_ascii "o" ++ [65533; 28; 65533]%N ++ runes_of_ascii "o" ++ [14; 65533]%N ++ runes_of_ascii "9" ++ [65533; 24; 1654; 65533]%N ++ runes_of_ascii "|2" ++ [65533; 65533]%N ++ runes_of_ascii "1\" ++ [65533]%N ++ runes_of_ascii "iI" ++ [65533; 65533]%N ++ runes_of_ascii """")).
-Eval vm_compute in ("<<<M4358>>>" ++ check (runes_of_ascii "MetaData M {
-}// c
+Eval vm_compute in ("<<<M1106>>>" ++ check (runes_of_ascii "MetaData zchar // c
+{ zchar[ 3 ] Pad , }")).
+Eval vm_compute in ("<<<M1095>>>" ++ check (runes_of_ascii "packet A { u8 x,// a
 
-MetaData N {
-}// d")).
-Eval vm_compute in ("<<<M2710>>>" ++ check (runes_of_ascii "} f64 @rightPad packet i8 } MetaData")).
-Eval vm_compute in ("<<<M2739>>>" ++ check ([65533; 65533]%N ++ runes_of_ascii "]" ++ [37017; 21]%N ++ runes_of_ascii "&`+" ++ [65533; 65533; 65533]%N ++ runes_of_ascii "lT4" ++ [65533]%N ++ runes_of_ascii "L" ++ [5; 14; 18; 65533; 65533; 17]%N ++ runes_of_ascii """5" ++ [65533]%N ++ runes_of_ascii ":Y" ++ [65533; 65533]%N ++ runes_of_ascii "xTV" ++ [65533; 65533]%N)).
-Eval vm_compute in ("<<<M2584>>>" ++ check (runes_of_ascii "packet A { x @lengthOf(y) `d`, }")).
-Eval vm_compute in ("<<<M268>>>" ++ check (runes_of_ascii "options { // " ++ [27880; 37322]%N ++ runes_of_ascii "
-T
-=int64  }
-")).
-Eval vm_compute in ("<<<M3143>>>" ++ check (runes_of_ascii "packet A {
- u8 x `d" ++ [6158]%N ++ runes_of_ascii "`, // c" ++ [6158]%N ++ runes_of_ascii "
-}")).
-Eval vm_compute in ("<<<M2587>>>" ++ check (runes_of_ascii "packet A { x @lengthOf(3), }")).
-Eval vm_compute in ("<<<M3032>>>" ++ check (runes_of_ascii "packet A {
+
+// b
+
+ u8 y, }")).
+Eval vm_compute in ("<<<M951>>>" ++ check (runes_of_ascii "root packet A {
     u8 x `x
 `,
 }")).
-Eval vm_compute in ("<<<M3014>>>" ++ check (runes_of_ascii "packet A {
-    u8 x `
-`,
+Eval vm_compute in ("<<<M997>>>" ++ check (runes_of_ascii "packet A {
+ u8 x `d" ++ [5760]%N ++ runes_of_ascii "`, // c" ++ [5760]%N ++ runes_of_ascii "
 }")).
-Eval vm_compute in ("<<<M3987>>>" ++ check (runes_of_ascii "packet string_ {
-    u,
-}")).
-Eval vm_compute in ("<<<M3278>>>" ++ check (runes_of_ascii "options { u8x =
+Eval vm_compute in ("<<<M1064>>>" ++ check (runes_of_ascii "packet A {
+}// a// b// c
+")).
+Eval vm_compute in ("<<<M1194>>>" ++ check (runes_of_ascii "options { u8x = 3
 // c
-3 }")).
-Eval vm_compute in ("<<<M3866>>>" ++ check (runes_of_ascii "options {
-    a1 = 1;
 }")).
-Eval vm_compute in ("<<<M925>>>" ++ check (runes_of_ascii "packet msg_type
-{ }
-")).
-Eval vm_compute in ("<<<M1764>>>" ++ check (runes_of_ascii "options { }options {")).
-Eval vm_compute in ("<<<M2796>>>" ++ check (runes_of_ascii ", root as char[ o :")).
-Eval vm_compute in ("<<<M2846>>>" ++ check (runes_of_ascii "Q,OfTqw6\RO}Mcbo,K")).
-Eval vm_compute in ("<<<M3137>>>" ++ check (runes_of_ascii "// c" ++ [65279]%N ++ runes_of_ascii "
-packet A {
-}")).
-Eval vm_compute in ("<<<M3084>>>" ++ check (runes_of_ascii "packet A {
-}// c" ++ [8192]%N)).
-Eval vm_compute in ("<<<M931>>>" ++ check (runes_of_ascii "options
-    { }")).
-Eval vm_compute in ("<<<M569>>>" ++ check (runes_of_ascii "
-
-/// triple
-")).
-Eval vm_compute in ("<<<M4439>>>" ++ check (runes_of_ascii "// a // b
-")).
-Eval vm_compute in ("<<<M2481>>>" ++ check (runes_of_ascii "@leftpad")).
-Eval vm_compute in ("<<<M2450>>>" ++ check (runes_of_ascii "falsey")).
-Eval vm_compute in ("<<<M2487>>>" ++ check (runes_of_ascii "@tag(")).
-Eval vm_compute in ("<<<M665>>>" ++ check (runes_of_ascii "
-//
-")).
-Eval vm_compute in ("<<<M2468>>>" ++ check (runes_of_ascii "'0'")).
-Eval vm_compute in ("<<<M2451>>>" ++ check (runes_of_ascii "as")).
-Eval vm_compute in ("<<<M2673>>>" ++ check (runes_of_ascii "x")).
+Eval vm_compute in ("<<<M1577>>>" ++ check (runes_of_ascii "packet A {
+}// a// b")).
+Eval vm_compute in ("<<<M1015>>>" ++ check (runes_of_ascii "packet A {
+}
+// c" ++ [8233]%N)).
+Eval vm_compute in ("<<<M1003>>>" ++ check (runes_of_ascii "packet A {
+}// c" ++ [8202]%N)).
+Eval vm_compute in ("<<<M740>>>" ++ check (runes_of_ascii "6" ++ [65533; 65533; 65533]%N ++ runes_of_ascii "Z%" ++ [65533; 65533; 65533]%N ++ runes_of_ascii "" ++ [65533]%N)).
+Eval vm_compute in ("<<<M1034>>>" ++ check (runes_of_ascii "// c" ++ [12]%N)).
